@@ -8,25 +8,57 @@ R1/R2/R5 work on the compiled grammar.  R3 is about the Python side of the round
   (`C2Profile.from_text`);
 * the *post-processor* is whatever callable is handed to that call as `postproc` (a nested function, a module-level
   function, a method, a lambda, a `functools.partial`) - not a function of a particular name;
-* the token-preservation condition on the post-processor is decided by a symbolic execution of its body (`_Sym`) on
-  provenance-tagged token streams: every stream item is an opaque token (`{`, `}`, `;` have known text, all other items
-  are symbolic words), strings built from tokens keep their parts (`_Cat`), token text that went through a transforming
-  string operation is `_Alt`.  The emitted pieces are compared with the stream (`_audit`).  The rule looks at *what is
-  yielded*, not at how the loop is written: an early `continue`, an index loop, a `yield from`, a join, an extracted
-  helper, hoisted sub-expressions give the same verdict.  Streams: every statement/block skeleton of the language up
-  to a size bound, a few deeper nestings, and every short flat item stream that ends in a terminator.
+* token preservation by the post-processor is an inductive argument over ONE arbitrary iteration of its loop over the
+  item stream (`_Flow`): W = buffer at the loop head ++ [item drawn], n = len(W) a symbol.  For every path through the
+  loop body (branch outcomes symbolic, inner loops summarised from one walk of their body with a symbolic position):
+    (i)   the item is appended to the line buffer unchanged (value flow; no transforming string operation on its text);
+    (ii)  tokens(yielded on the path) ++ buffer at the end == W - so a path either yields nothing and keeps W buffered, or
+          yields all of W once, in order (segment arithmetic on polynomials in n) and resets the buffer;
+    (iii) everything else that is yielded is whitespace (or a constant `{`/`}`/`;` where the branch tests of the path
+          say the item at that place is that delimiter), and two words are never fused;
+    (iv)  the paths that keep the buffer are not taken for an item that can end a sentence of the grammar (LAST set of
+          `start`, computed from the rules; the item's possible lexemes are the grammar's terminal vocabulary refined by
+          the literals the code compares the item with) - so nothing is buffered when the stream ends.
+  The rule looks at what flows into `yield`, not at how the loop is written: an early `continue`, an index loop with the
+  last element split off, `yield from` of a prepared list, a join, a concatenated or hoisted separator, an extracted
+  helper generator give the same verdict.
 
-Undecided (never violated): no reconstruct call / no post-processor function can be located, or the post-processor uses
-a construct the executor does not model (`_Unsupported`).  Nothing of /repo is imported or executed: the executor walks
-the parsed AST with its own value domain.
+Undecided (never violated): no reconstruct call / no post-processor function can be located, or the post-processor has
+a form the value flow does not recognise (`_Undecided`, `_Unk` values: several buffers, a pipeline of generators, zip or
+comprehension based emission, `try`/`with`/general `while`).  Nothing of /repo is imported or executed.
+
+Technique (numbers: RULES_GUIDE "What counts as static here", ALLOWED 1-6)
+  R1  6 (compiled grammar as a table: rules grouped by (tree name, kept symbols), complete comparison of the filtered
+      keyword sequences of each group); trusted: lark's TreeMatcher merge rule.
+  R2  6 (terminal table: kind and name of every used terminal, the %ignore set) + 1/6 (constant keyword arguments of the
+      Lark.open call read from the AST).
+  R3  1 (locating renderer / reader / post-processor by role: resolved callees, argument binding of the lark API,
+      single-definition substitution); 3 (path-wise value flow with symbolic terms; the loop over the stream and every
+      inner loop analysed once with symbolic loop-carried values; structural / polynomial-normal-form comparison of
+      segment bounds; argument binding into package helpers, lambda, functools.partial); 2 (both outcomes of a test are
+      followed unless the facts of the path decide it; facts added per outcome); 4 (small abstract domains: integer
+      polynomials over n / loop positions with the linear prover `_ge0`, whitespace-ness of strings, list length;
+      lemmas L1 loop-position bounds, L2 `a + b*n >= 0 for n >= 1 iff b >= 0 and a + b >= 0`, L3 slices clip and
+      `s[:c] ++ s[c:] == s`, L4 range/enumerate visit positions in order, LT which str operations keep the text, LX
+      `{` `}` `;` are self-delimiting - checked against the terminal table); 5 (the item's lexeme set: case analysis over
+      the grammar's terminal vocabulary against the literals the post-processor compares with); 6 (LAST(start) by
+      fixpoint over the compiled rules; regexp terminals inspected as syntax trees; constant folding of constant
+      expressions such as `" " * 4`, `frozenset("{};")`).  Assumptions A1 (the stream is a sentence of the grammar), A2
+      (line length is unbounded).  No stream, line length or item text is ever chosen by the checker.
+  R5  6 (every block rule of the compiled grammar has an alternative with an empty body).
+  R6  imported C12.R4 (regex syntax tree of the STRING terminal) - see rules/c12.py.
 """
 
 from __future__ import annotations
 
 import ast
+import copy
+import itertools
 from collections import defaultdict
+from fractions import Fraction
 
-from csverif.astutil import assignments_to, dotted, kwarg, params, src, strip_cast
+from csverif.absint import SymPoly
+from csverif.astutil import assignments_to, compare_parts, dotted, kwarg, params, src, strip_cast
 from csverif.grammar import Grammar
 from csverif.loader import Func
 from csverif.q import inline
@@ -41,14 +73,33 @@ def run(ctx):
         "c2profile.py): the reachable expanded rules are grouped by the key lark's Reconstructor/TreeMatcher matches a tree "
         "node on - (tree name = alias or origin, sequence of non-filtered symbols); every group must have exactly one "
         "sequence of filtered keyword tokens, otherwise the second keyword is printed as the first. Exhaustive over the "
-        "finite rule set. Plus terminal kinds (kept regexp terminals are named, filtered terminals are plain strings) and a "
-        "token-preservation check of the whitespace post-processor (symbolic execution of the callable handed to "
-        "Reconstructor.reconstruct on provenance-tagged token streams: all statement/block skeletons up to a size bound, "
-        "all short delimiter/word streams, and a few deeper nestings) and of as_text/from_text."
+        "finite rule set. Plus terminal kinds (kept regexp terminals are named, filtered terminals are plain strings), and a "
+        "token-preservation proof of the whitespace post-processor handed to Reconstructor.reconstruct: an inductive "
+        "argument over ONE arbitrary iteration of its loop over the item stream, by path-wise value flow with symbolic terms "
+        "(line length n and loop positions are symbols, the buffer is the segment W[0:n-1] of the items drawn, inner loops "
+        "are summarised from one walk of their body; nothing is executed and no input stream is chosen): on every path "
+        "yielded items ++ buffer == W, each item unchanged, once, in order, words kept apart; the paths that keep the "
+        "buffer are not taken for the symbols a sentence of the grammar can end with (LAST set of `start`, computed from "
+        "the rules). Plus as_text/from_text use the same parser on the profile's own tree / source."
     )
-    rep.not_decided = ["text equality for all sentences of the language", "whitespace handling by the lexer"]
+    rep.not_decided = ["text equality for all sentences of the language", "whitespace handling by the lexer",
+                       "post-processors of another shape than `buffer the items of a line, write the line out on a terminator` (several buffers, a pipeline of generators, "
+                       "zip/comprehension based emission, try/with/while forms): undecided, never violated",
+                       "feasibility of a path whose branch tests the analysis treats as opaque (membership of a constant in the buffer, predicates on the item text): both outcomes are followed"]
     rep.trusted_base = ["lark 1.3.1 grammar loader and its TreeMatcher grouping rule (lark/tree_matcher.py: rules equal on (origin, kept expansion) are merged, first wins)",
-                        "lark 1.3.1 Reconstructor.reconstruct(tree, postproc=None, insert_spaces=True): the item stream is passed through postproc and joined", "CPython ast"]
+                        "lark 1.3.1 Reconstructor.reconstruct(tree, postproc=None, insert_spaces=True): the item stream (one str per terminal of the matched rules, in sentence order) is passed "
+                        "through postproc and joined; with insert_spaces a space is put between two consecutive non-empty yielded strings whose facing characters are identifier characters",
+                        "CPython ast; python's sre parser for the syntax tree of regexp terminals",
+                        "assumption A1: the stream handed to the post-processor is a sentence of c2profile.lark (it is produced from a tree the same grammar matched), so it ends with a symbol of LAST(start)",
+                        "assumption A2: the number of items between two terminators is not bounded by a constant (a constant-bounded slice of the line buffer is not the whole buffer)",
+                        "lemma L1: a polynomial linear in a loop position j, 0 <= j <= count-1, is minimal at j=0 (positive coefficient) or j=count-1 (negative coefficient)",
+                        "lemma L2: a + b*n >= 0 for every line length n >= 1 iff b >= 0 and a + b >= 0",
+                        "lemma L3: python slicing clips, so s[:c] ++ s[c:] == s for every c; s[a:b] with 0 <= a <= b <= len(s) proved is the segment [a, b)",
+                        "lemma L4: for i in range(a, b) with a <= b visits a, a+1, ..., b-1 in order; enumerate(s, k) pairs position j with s[j] and index j+k",
+                        "lemma LT: an item of the stream is a non-empty lexeme; str(x) and '{}'/'%s'/f'{x}' formatting without conversion or format spec return the text of a str unchanged; "
+                        "str methods strip/replace/lower/... , slicing and repr may change it",
+                        "lemma LX (checked against the terminal table): the characters `{`, `}`, `;` occur in no terminal other than themselves and the quote-delimited STRING, hence a `{`/`}`/`;` "
+                        "next to any text is a lexeme of its own; a whitespace-only string repeated any number of times is whitespace or empty"]
     rep.exhaustive = True
     g = Grammar(ctx.repo)
     rep.extra["lark_options"] = {k: v for k, v in g.options.items()}
@@ -57,7 +108,7 @@ def run(ctx):
     rep.count("terminals", len(g.terminals), floor=140)
     r1(ctx, g)
     r2(ctx, g)
-    r3(ctx)
+    r3(ctx, g)
     r5(ctx, g)
     # the STRING terminal decides where a literal ends: its regex structure (C12.R4) is a necessary condition for every
     # valid profile to lex into the tokens written
@@ -111,112 +162,6 @@ def r2(ctx, g: Grammar):
     ctx.ob("R2", "GRAM", "c2profile.lark", "%ignore", g.ignored == {"WS", "SH_COMMENT", "NEWLINE"}, f"ignored terminals {sorted(g.ignored)} (whitespace and comments only)")
 
 
-# =====================================================================================================================
-# Symbolic execution of a (generator) function on provenance-tagged values.
-# Private to this module; candidate for hoisting into the engine (csverif.symexec).
-# =====================================================================================================================
-_DELIMS = ("{", "}", ";")
-
-
-class _Unsupported(Exception):
-    """The interpreted code uses a construct the symbolic executor does not model -> the rule is undecided."""
-
-
-class _Abort(Exception):
-    """The interpreted code itself raises on this input (IndexError, assert, raise ...)."""
-
-
-class _Tok:
-    """One item of the reconstructor's stream.  `text` is known for the three delimiters, None for a symbolic word (a
-    keyword, an option name or a STRING literal)."""
-
-    __slots__ = ("idx", "text")
-
-    def __init__(self, idx, text=None):
-        self.idx = idx
-        self.text = text
-
-    def __repr__(self):
-        return self.text if self.text is not None else f"w{self.idx}"
-
-
-class _Cat:
-    """A string that is a concatenation of constant text and whole tokens."""
-
-    __slots__ = ("parts",)
-
-    def __init__(self, parts):
-        self.parts = tuple(p for p in parts if not (isinstance(p, str) and p == ""))
-
-    def __repr__(self):
-        return "+".join(repr(p) for p in self.parts) or "''"
-
-
-class _Alt:
-    """Token text that went through an operation that may change it (replace, strip, slicing, formatting with a spec...)."""
-
-    __slots__ = ("how",)
-
-    def __init__(self, how):
-        self.how = how
-
-    def __repr__(self):
-        return f"<{self.how}>"
-
-
-class _It:
-    """An iterator value (the item stream, a running generator, enumerate/zip/reversed/genexp)."""
-
-    __slots__ = ("it",)
-
-    def __init__(self, it):
-        self.it = iter(it)
-
-
-class _Closure:
-    __slots__ = ("node", "func", "outer", "bound", "recv")
-
-    def __init__(self, node, func, outer=None, bound=None, recv=None):
-        self.node = node  # FunctionDef / Lambda
-        self.func = func  # Func giving module / class / static parent
-        self.outer = outer  # defining _Scope (None: resolve free names statically)
-        self.bound = dict(bound or {})  # functools.partial keywords / positional prefix under key None
-        self.recv = recv  # bound receiver (methods)
-
-
-class _Self:
-    """The instance a method is bound to: only class attributes with constant values can be read."""
-
-    __slots__ = ("cls_fq",)
-
-    def __init__(self, cls_fq):
-        self.cls_fq = cls_fq
-
-
-class _Builtin:
-    __slots__ = ("name",)
-
-    def __init__(self, name):
-        self.name = name
-
-
-class _Scope:
-    __slots__ = ("vars", "func", "outer", "nonlocals")
-
-    def __init__(self, func, outer=None):
-        self.vars = {}
-        self.func = func
-        self.outer = outer
-        self.nonlocals = ()
-
-
-_STRINGISH = (str, _Tok, _Cat, _Alt)
-_BUILTINS = {"len", "range", "enumerate", "zip", "list", "tuple", "set", "frozenset", "dict", "str", "int", "bool", "isinstance", "min", "max", "sum", "abs",
-             "any", "all", "reversed", "sorted", "iter", "next", "print", "repr", "bytes", "float", "object", "type", "divmod"}
-_STR_PREDICATES = {"startswith", "endswith", "isspace", "isalpha", "isalnum", "isdigit", "isidentifier", "islower", "isupper", "isnumeric", "isdecimal", "isprintable", "isascii"}
-_STR_PURE = _STR_PREDICATES | {"strip", "lstrip", "rstrip", "replace", "lower", "upper", "title", "capitalize", "split", "rsplit", "splitlines", "partition", "rpartition", "find",
-                               "rfind", "index", "rindex", "count", "ljust", "rjust", "center", "zfill", "expandtabs", "removeprefix", "removesuffix", "casefold", "swapcase", "format"}
-
 
 def _own_nodes(fn):
     """All nodes of a function's own body in source order: nested defs / lambdas / classes are yielded but not entered
@@ -255,1333 +200,2168 @@ def _own_assignments(fn, name):
     return idx[4][name]
 
 
-def _parts(v):
-    if isinstance(v, _Cat):
-        return v.parts
-    return (v,)
-
-
 def _is_generator(node) -> bool:
     return _fn_index(node)[3]
 
 
-class _Sym:
-    """One symbolic run.  Data-dependent decisions on symbolic token text are taken from `oracle` (then default False) and
-    recorded in `trace`, so that the caller can enumerate the alternatives."""
 
-    MAX_STEPS = 20000
-    MAX_DEPTH = 12
+# =====================================================================================================================
+# Path-wise value flow of the post-processor (a generator), private to this module.
+#
+# Nothing is executed and no input is chosen: the analysis walks the paths of the function once, values are symbolic
+# TERMS, branch outcomes stay symbolic (both outcomes are followed unless the facts collected on the path decide the test),
+# and every loop body is analysed ONCE with its loop-carried values symbolic:
+#
+# * the loop that draws the items from the stream is analysed for one arbitrary iteration.  W is the sequence "buffer at
+#   the loop head ++ [the item drawn]", n = len(W) >= 1 is a symbol; the item is the term W[n-1], the buffer at the head
+#   is the segment W[0:n-1] (induction hypothesis; base case: the buffer is empty before the loop).  For every path
+#   through the body the rule checks the inductive step   tokens(yielded on the path) ++ buffer at the end == W;
+# * an inner loop (over the buffer, a slice of it, an index range) is summarised from one walk of its body with the
+#   position j symbolic (0 <= j < count): what it appends to each sink (the output, a local list) per iteration;
+# * integers are polynomials over n, j and opaque atoms (csverif.absint.SymPoly); order facts are proved by the small
+#   linear prover `_ge0` (lemmas L1, L2 below) or taken from the branch tests of the path;
+# * what an item may be is a subset of the grammar's terminal vocabulary (`_Lexicon`), refined by the comparisons of the
+#   path against the literals the code itself compares with.
+# =====================================================================================================================
+_N = SymPoly.atom("n")
+_DELIM_CHARS = ("{", "}", ";")
+_STRING_CLASS = "<STRING>"  # any text of the regexp terminal STRING (quote-delimited)
+_WORD_CLASS = "<WORD>"  # any text of another regexp terminal
 
-    def __init__(self, ctx, oracle=()):
-        self.ctx = ctx
-        self.oracle = list(oracle)
-        self.trace = []
-        self.memo = {}
-        self.tok_is = {}
-        self.steps = 0
-        self.depth = 0
-        self._static = {}
 
-    # ------------------------------------------------------------------------------------------------ decisions
-    def choose(self, key):
-        if key is not None and key in self.memo:
-            return self.memo[key]
-        if len(self.trace) >= 256:
-            raise _Unsupported("too many decisions that depend on the text of a token")
-        v = self.oracle[len(self.trace)] if len(self.trace) < len(self.oracle) else False
-        self.trace.append(v)
-        if key is not None:
-            self.memo[key] = v
-        return v
+def _k(c):
+    return SymPoly.const(c)
 
-    def tick(self):
-        self.steps += 1
-        if self.steps > self.MAX_STEPS:
-            raise _Unsupported("step budget exhausted (non-terminating loop?)")
 
-    # ------------------------------------------------------------------------------------------------ value helpers
-    @staticmethod
-    def _maybe_word(s: str) -> bool:
-        """Can a non-delimiter stream item (keyword, option name, STRING literal incl. quotes) have the text s?"""
-        if s == "" or s in _DELIMS or s.isspace():
-            return False
-        if s[0] == '"':
-            return len(s) >= 2 and s[-1] == '"'
-        return not any(c.isspace() or c in '{};"' for c in s)
+class _Undecided(Exception):
+    """The code uses a form the analysis does not recognise -> the obligations are undecided."""
 
-    def eq(self, a, b):
-        if isinstance(b, _Tok) and not isinstance(a, _Tok):
-            a, b = b, a
-        if isinstance(a, _Tok):
-            if isinstance(b, _Tok):
-                if a.idx == b.idx:
-                    return True
-                if a.text is not None and b.text is not None:
-                    return a.text == b.text
-                if a.text is not None or b.text is not None:
-                    return False
-                return self.choose(("eqtok", min(a.idx, b.idx), max(a.idx, b.idx)))
-            if isinstance(b, str):
-                if a.text is not None:
-                    return a.text == b
-                if not self._maybe_word(b):
-                    return False
-                if a.idx in self.tok_is:
-                    return self.tok_is[a.idx] == b
-                r = self.choose(("eq", a.idx, b))
-                if r:
-                    self.tok_is[a.idx] = b
-                return r
-            if isinstance(b, (_Cat, _Alt)):
-                return self.choose(None)
-            return False
-        if isinstance(a, (_Cat, _Alt)) or isinstance(b, (_Cat, _Alt)):
-            if isinstance(a, _STRINGISH) and isinstance(b, _STRINGISH):
-                return self.choose(None)
-            return False
-        if isinstance(a, (list, tuple)) and type(a) is type(b):
-            return len(a) == len(b) and all(self.eq(x, y) for x, y in zip(a, b))
-        if isinstance(a, (_It, _Closure, _Self, _Builtin)) or isinstance(b, (_It, _Closure, _Self, _Builtin)):
-            return a is b
-        try:
-            return a == b
-        except Exception as e:  # pragma: no cover
-            raise _Abort(str(e))
 
-    def contains(self, container, x):
-        if isinstance(container, (list, tuple, set, frozenset, dict, range)):
-            for e in list(container):
-                if self.eq(x, e):
-                    return True
-            return False
-        if isinstance(container, str):
-            if isinstance(x, str):
-                return x in container
-            if isinstance(x, _Tok):
-                if x.text is not None:
-                    return x.text in container
-                if x.idx in self.tok_is:
-                    return self.tok_is[x.idx] in container
-                if not any(c.isalnum() or c in '_-#"' for c in container):
-                    return False  # a word has at least one such character
-                return self.choose(("sub", x.idx, container))
-            if isinstance(x, (_Cat, _Alt)):
-                return self.choose(None)
-            raise _Abort("'in <string>' requires string as left operand")
-        if isinstance(container, (_Tok, _Cat, _Alt)):
-            if isinstance(container, _Tok) and container.text is not None and isinstance(x, str):
-                return x in container.text
-            if isinstance(x, str) and x == "":
-                return True
-            return self.choose(None)
-        if isinstance(container, _It):
-            raise _Unsupported("membership test on an iterator")
-        raise _Abort(f"argument of type {type(container).__name__} is not iterable")
+class _Imm:
+    """Immutable abstract value: shared between the states of different paths."""
 
-    def truth(self, v):
-        if isinstance(v, _Tok):
-            return True  # stream items are never empty
-        if isinstance(v, _Cat):
-            return bool(v.parts)
-        if isinstance(v, _Alt):
-            return self.choose(None)
-        if isinstance(v, (_It, _Closure, _Self, _Builtin)):
-            return True
-        return bool(v)
+    __slots__ = ()
 
-    def cat(self, *vals):
-        parts = []
-        for v in vals:
-            if isinstance(v, _Alt):
-                return v
-            if not isinstance(v, _STRINGISH):
-                raise _Abort(f"can only concatenate str (not {type(v).__name__}) to str")
-            parts.extend(_parts(v))
-        if all(isinstance(p, str) for p in parts):
-            return "".join(parts)
+    def __deepcopy__(self, memo):
+        return self
+
+    def __copy__(self):
+        return self
+
+
+class _Str(_Imm):
+    """A string term: concatenation of parts
+    ("txt", s) constant text | ("ws", None) whitespace of unknown, possibly zero, length | ("tok", idx) the unchanged text
+    of stream item W[idx] | ("join", seq parts, sep _Str, reversed) | ("alt", how) item text that went through an operation
+    that can change it."""
+
+    __slots__ = ("parts",)
+
+    def __init__(self, parts=()):
         merged = []
         for p in parts:
-            if isinstance(p, str) and merged and isinstance(merged[-1], str):
-                merged[-1] += p
+            if p[0] == "txt":
+                if p[1] == "":
+                    continue
+                if merged and merged[-1][0] == "txt":
+                    merged[-1] = ("txt", merged[-1][1] + p[1])
+                    continue
+            merged.append(p)
+        self.parts = tuple(merged)
+
+    @property
+    def text(self):
+        if all(p[0] == "txt" for p in self.parts):
+            return "".join(p[1] for p in self.parts)
+        return None
+
+    def tok(self):
+        if len(self.parts) == 1 and self.parts[0][0] == "tok":
+            return self.parts[0][1]
+        return None
+
+    def symbolic(self):
+        return any(p[0] in ("tok", "join", "alt") for p in self.parts)
+
+    def blank(self):
+        """Only whitespace (of known or unknown length)."""
+        return all(p[0] == "ws" or (p[0] == "txt" and p[1].isspace()) for p in self.parts)
+
+    def __eq__(self, o):
+        return isinstance(o, _Str) and self.parts == o.parts
+
+    def __hash__(self):
+        return hash(self.parts)
+
+    def __repr__(self):
+        out = []
+        for p in self.parts:
+            out.append(repr(p[1]) if p[0] == "txt" else "<ws>" if p[0] == "ws" else f"W[{p[1]!r}]" if p[0] == "tok" else f"<{p[0]}>")
+        return "+".join(out) or "''"
+
+
+def _S(text):
+    return _Str((("txt", text),))
+
+
+def _T(idx):
+    return _Str((("tok", idx),))
+
+
+class _Num(_Imm):
+    __slots__ = ("p",)
+
+    def __init__(self, p):
+        self.p = p if isinstance(p, SymPoly) else _k(p)
+
+    def const(self):
+        c = self.p.const_value()
+        return int(c) if c is not None and c.denominator == 1 else None
+
+    def __eq__(self, o):
+        return isinstance(o, _Num) and self.p == o.p
+
+    def __hash__(self):
+        return hash(self.p)
+
+    def __repr__(self):
+        return f"int({self.p!r})"
+
+
+class _Opq(_Imm):
+    """A scalar the analysis knows nothing about except its identity (the same label is the same value)."""
+
+    __slots__ = ("label",)
+
+    def __init__(self, label):
+        self.label = label
+
+
+class _Unk(_Imm):
+    __slots__ = ("why",)
+
+    def __init__(self, why):
+        self.why = why
+
+
+class _Fn(_Imm):
+    """A function of the package with arguments bound by functools.partial / a receiver."""
+
+    __slots__ = ("func", "node", "pos", "kw", "recv")
+
+    def __init__(self, func, node, pos=(), kw=None, recv=False):
+        self.func = func  # Func (module / class / static parent); for a lambda: the function it is written in
+        self.node = node
+        self.pos = tuple(pos)
+        self.kw = dict(kw or {})
+        self.recv = recv
+
+
+class _Ext(_Imm):
+    __slots__ = ("name",)
+
+    def __init__(self, name):
+        self.name = name
+
+
+class _Stream(_Imm):
+    """The item stream handed to the post-processor (or an iterator / list of it: same items, same order)."""
+
+    __slots__ = ()
+
+
+class _Lst:
+    """A list term: parts ("seg", lo, hi, note) the items W[lo:hi] | ("one", value) | ("rep", _Rep)."""
+
+    _ids = itertools.count(1)
+
+    def __init__(self, parts=()):
+        self.uid = next(_Lst._ids)
+        self.ver = 0  # bumped by every mutation that is not an append
+        self.parts = list(parts)
+
+
+class _Gen:
+    """A call of a generator function of the package that has not been consumed yet."""
+
+    def __init__(self, fn, env):
+        self.fn = fn
+        self.env = env
+
+
+class _Iter:
+    """enumerate / range / reversed over list terms."""
+
+    def __init__(self, kind, a, b=None):
+        self.kind = kind
+        self.a = a
+        self.b = b
+
+
+class _RAlt(_Imm):
+    """One path through the body of a summarised loop: the facts at its end and what it appended to each sink."""
+
+    __slots__ = ("lex", "ge0", "deltas")
+
+    def __init__(self, lex, ge0, deltas):
+        self.lex = lex
+        self.ge0 = ge0
+        self.deltas = deltas
+
+
+class _Rep(_Imm):
+    """Summary of a loop `for j in [0, count)`: per iteration one of `alts`."""
+
+    __slots__ = ("atom", "count", "alts", "what")
+
+    def __init__(self, atom, count, alts, what):
+        self.atom = atom
+        self.count = count
+        self.alts = alts
+        self.what = what
+
+
+class _Frame:
+    def __init__(self, func, env, static_from):
+        self.func = func  # Func being walked (None: module level)
+        self.env = env
+        self.static_from = static_from  # Func whose scope free names are looked up in first (None: the module)
+
+    def __deepcopy__(self, memo):
+        return _Frame(self.func, copy.deepcopy(self.env, memo), self.static_from)
+
+
+class _State:
+    def __init__(self):
+        self.frames = []
+        self.out = _Lst()
+        self.lex = {}  # token index (SymPoly) -> frozenset of lexemes the item can be
+        self.ge0 = []  # polynomials known to be >= 0 on this path
+        self.loops = []  # (atom, count): 0 <= atom <= count - 1
+        self.unk = []  # why this path is undecided
+        self.viol = []  # (kind, text) defects established on this path
+        self.opq = {}  # label of an opaque test -> outcome chosen on this path
+
+    def clone(self):
+        return copy.deepcopy(self)
+
+    def lists(self):
+        seen, out, stack = set(), [], [self.out]
+        for fr in self.frames:
+            stack.extend(fr.env.values())
+        while stack:
+            v = stack.pop()
+            if id(v) in seen:
+                continue
+            seen.add(id(v))
+            if isinstance(v, _Lst):
+                out.append(v)
+                stack.extend(p[1] for p in v.parts if p[0] == "one")
+            elif isinstance(v, (tuple, list, frozenset)):
+                stack.extend(v)
+            elif isinstance(v, _Gen):
+                stack.extend(v.env.values())
+            elif isinstance(v, _Iter):
+                stack.extend([v.a, v.b])
+        return out
+
+
+# ---------------------------------------------------------------------------------------------- polynomial order facts
+def _lin(p, atom):
+    """p == c * atom + rest with atom not in rest -> (c, rest), else None (non-linear)."""
+    c, rest = Fraction(0), {}
+    for mon, v in p.terms.items():
+        if atom in mon:
+            if mon != (atom,):
+                return None
+            c = v
+        else:
+            rest[mon] = v
+    return c, SymPoly(rest)
+
+
+def _basic_ge0(p, loops) -> bool:
+    """p >= 0 for all admissible values of its atoms?
+    L1 (bounds of a loop position): a polynomial linear in j with 0 <= j <= count-1 is minimal at j = 0 if its coefficient
+        is positive and at j = count-1 if it is negative.
+    L2 (line length): a + b*n with n >= 1 is >= 0 for all n iff b >= 0 and a + b >= 0."""
+    for atom, cnt in reversed(loops):
+        if atom in p.atoms():
+            sp = _lin(p, atom)
+            if sp is None:
+                return False
+            c, rest = sp
+            p = rest if c > 0 else rest + (cnt - _k(1)) * _k(c)
+    if set(p.terms) - {(), ("n",)}:
+        return False
+    a, b = p.terms.get((), Fraction(0)), p.terms.get(("n",), Fraction(0))
+    return b >= 0 and a + b >= 0
+
+
+def _ge0(st, p) -> bool:
+    if _basic_ge0(p, st.loops):
+        return True
+    return any(_basic_ge0(p - f, st.loops) for f in st.ge0)  # p >= f and f >= 0
+
+
+def _at_upper(p, loops):
+    """p with every loop position replaced by its last value (None if not linear)."""
+    for atom, cnt in reversed(loops):
+        if atom in p.atoms():
+            sp = _lin(p, atom)
+            if sp is None:
+                return None
+            c, rest = sp
+            p = rest + (cnt - _k(1)) * _k(c)
+    return p
+
+
+def _sign_for_long_lines(p):
+    """For a polynomial in n alone: "zero", "pos" (>= 1 for every n >= 1), "neg" (<= -1 for every n >= 1), "pos-long" /
+    "neg-long" (positive / negative for all sufficiently long lines - lines are not bounded in length), else None."""
+    if set(p.terms) - {(), ("n",)}:
+        return None
+    a, b = p.terms.get((), Fraction(0)), p.terms.get(("n",), Fraction(0))
+    if a == 0 and b == 0:
+        return "zero"
+    if b >= 0 and a + b >= 1:
+        return "pos"
+    if b <= 0 and a + b <= -1:
+        return "neg"
+    if b > 0:
+        return "pos-long"
+    if b < 0:
+        return "neg-long"
+    return None
+
+
+# ---------------------------------------------------------------------------------------------- list terms
+def _canon(parts):
+    """Adjacent segments / single unchanged items merged: [W[0:n-1], W[n-1]] == [W[0:n]]."""
+    out = []
+    for p in parts:
+        if p[0] == "one" and isinstance(p[1], _Str) and p[1].tok() is not None:
+            i = p[1].tok()
+            p = ("seg", i, i + _k(1), None)
+        if p[0] == "seg":
+            if p[1] == p[2]:
+                continue
+            if out and out[-1][0] == "seg" and out[-1][2] == p[1] and not out[-1][3] and not p[3]:
+                out[-1] = ("seg", out[-1][1], p[2], None)
+                continue
+        out.append(p)
+    return out
+
+
+def _length(parts):
+    n = _k(0)
+    for p in parts:
+        if p[0] == "seg":
+            n = n + (p[2] - p[1])
+        elif p[0] == "one":
+            n = n + _k(1)
+        else:
+            return None
+    return n
+
+
+# ---------------------------------------------------------------------------------------------- the item vocabulary
+def _regex_tree(pattern):
+    try:
+        import re._parser as sre  # python >= 3.11
+    except ImportError:  # pragma: no cover
+        import sre_parse as sre
+    try:
+        return list(sre.parse(pattern))
+    except Exception:
+        return None
+
+
+def _regex_literals(seq, limit=4000):
+    """The finite set of strings a regex syntax tree made of literals, alternations and groups denotes (else None)."""
+    outs = [""]
+    for op, arg in seq:
+        name = str(op)
+        if name == "LITERAL":
+            outs = [o + chr(arg) for o in outs]
+        elif name == "BRANCH":
+            alts = []
+            for a in arg[1]:
+                sub = _regex_literals(list(a), limit)
+                if sub is None:
+                    return None
+                alts.extend(sub)
+            outs = [o + s for o in outs for s in alts]
+        elif name == "SUBPATTERN":
+            sub = _regex_literals(list(arg[-1]), limit)
+            if sub is None:
+                return None
+            outs = [o + s for o in outs for s in sub]
+        else:
+            return None
+        if len(outs) > limit:
+            return None
+    return outs
+
+
+class _Lexicon:
+    """What an item of the reconstructor's stream can be: the text of a terminal of a reachable rule.  String terminals
+    and regexp terminals that are a finite alternation of literals are enumerated from the compiled grammar; any other
+    regexp terminal is a class (`<STRING>` if its syntax tree starts and ends with a literal double quote)."""
+
+    def __init__(self, g: Grammar):
+        self.vocab = set()
+        self.classes = {}
+        self.notes = []
+        used = {s.name for r in g.rules for s in r.expansion if s.is_term}
+        self.of_terminal = {}
+        for name in sorted(used):
+            kind, val = g.terminals.get(name, ("?", None))
+            if kind == "str":
+                lex = {val}
             else:
-                merged.append(p)
-        return _Cat(merged)
+                tree = _regex_tree(val) if isinstance(val, str) else None
+                lits = _regex_literals(tree) if tree is not None else None
+                if lits is not None:
+                    lex = set(lits)
+                elif tree and str(tree[0][0]) == "LITERAL" and tree[0][1] == 34 and str(tree[-1][0]) == "LITERAL" and tree[-1][1] == 34:
+                    lex = {_STRING_CLASS}
+                else:
+                    lex = {_WORD_CLASS}
+                    self.notes.append(f"regexp terminal {name} is neither a literal alternation nor quote-delimited")
+            self.of_terminal[name] = lex
+            self.vocab |= lex
+        self.all = frozenset(self.vocab)
+        # lexical lemma LX: `{`, `}`, `;` are lexemes of their own - the character occurs in no other terminal except inside
+        # the quote-delimited STRING, so text next to it cannot fuse with it.  Checked here against the terminal table.
+        self.delims = frozenset(d for d in _DELIM_CHARS if d in self.vocab)
+        self.delims_ok = _WORD_CLASS not in self.vocab and all(not (d in v and v != d) for d in self.delims for v in self.vocab if not v.startswith("<"))
+        # lexical lemma LA: every lexeme is either word-like (starts and ends with an identifier character - lark's space insertion
+        # between two adjacent yielded items then applies exactly where two words would fuse), or a STRING (faces its neighbours
+        # with a quote), or made of punctuation characters that occur in no word-like lexeme (`{`, `}`, `;`, `#`: text next to
+        # it cannot become part of it, with or without whitespace).  Checked here against the terminal table.
+        def idc(ch):
+            return ch.isalnum() or ch == "_"
 
-    def to_str(self, v):
-        """str(v) / '{}'.format(v) / f'{v}'."""
-        if isinstance(v, _STRINGISH):
-            return v
-        if isinstance(v, (int, float, bool)) or v is None:
-            return str(v)
-        return _Alt(f"str() of a {type(v).__name__}")
+        plain = [v for v in self.vocab if v and not v.startswith("<")]
+        punct = {v for v in plain if not any(idc(ch) for ch in v)}
+        words = [v for v in plain if v not in punct]
+        self.adj_ok = (_WORD_CLASS not in self.vocab and "" not in self.vocab and all(idc(v[0]) and idc(v[-1]) for v in words)
+                       and not any(ch in w for p in punct for ch in p for w in words))
+        self.last = self._last(g)
 
-    def iterate(self, v):
-        if isinstance(v, _It):
-            return v.it
-        if isinstance(v, (list, tuple, range, dict, set, frozenset)):
-            return iter(v)
-        if isinstance(v, str):
-            return iter(v)
-        if isinstance(v, _Tok) and v.text is not None:
-            return iter(v.text)
-        if isinstance(v, (_Tok, _Cat, _Alt)):
-            raise _Unsupported("iteration over the characters of a token")
-        if isinstance(v, (_Self, _Builtin)):
-            raise _Unsupported("iteration over an object the executor does not model")
-        raise _Abort(f"{type(v).__name__} object is not iterable")
+    @staticmethod
+    def _last(g: Grammar):
+        """Terminals that can be the last symbol of a sentence derived from `start` (fixpoint over the expanded rules)."""
+        nullable = set()
+        changed = True
+        while changed:
+            changed = False
+            for r in g.rules:
+                if r.origin not in nullable and all((not s.is_term) and s.name in nullable for s in r.expansion):
+                    nullable.add(r.origin)
+                    changed = True
+        last = defaultdict(set)
+        changed = True
+        while changed:
+            changed = False
+            for r in g.rules:
+                for s in reversed(r.expansion):
+                    add = {s.name} if s.is_term else last[s.name]
+                    if not add <= last[r.origin]:
+                        last[r.origin] |= add
+                        changed = True
+                    if s.is_term or s.name not in nullable:
+                        break
+        return set(last.get("start", set()))
+
+    def last_lexemes(self):
+        out = set()
+        for t in self.last:
+            out |= self.of_terminal.get(t, {_WORD_CLASS})
+        return out
+
+    # -- three-valued comparison of a lexeme with constants the code compares against
+    @staticmethod
+    def eq(v, c):
+        if v == _STRING_CLASS:
+            return None if len(c) >= 2 and c[0] == '"' and c[-1] == '"' else False
+        if v == _WORD_CLASS:
+            return None if c and not c.isspace() else False
+        return v == c
+
+    @staticmethod
+    def within(v, c):
+        """`v in c` for a constant string c (substring test)."""
+        if v == _STRING_CLASS:
+            return None if c.count('"') >= 2 else False
+        if v == _WORD_CLASS:
+            return None if c.strip() else False
+        return v in c
+
+
+# ---------------------------------------------------------------------------------------------- the walker: expressions
+_STR_PREDICATES = {"startswith", "endswith", "isspace", "isalpha", "isalnum", "isdigit", "isidentifier", "islower", "isupper", "isnumeric", "isdecimal", "isprintable", "isascii"}
+_STR_TRANSFORMS = {"strip", "lstrip", "rstrip", "replace", "lower", "upper", "title", "capitalize", "ljust", "rjust", "center", "zfill", "expandtabs", "removeprefix", "removesuffix",
+                   "casefold", "swapcase", "translate", "encode"}
+_BUILTIN_NAMES = {"len", "range", "enumerate", "zip", "list", "tuple", "set", "frozenset", "dict", "str", "int", "bool", "isinstance", "min", "max", "sum", "abs", "any", "all",
+                  "reversed", "sorted", "iter", "next", "print", "repr", "bytes", "float", "object", "type"}
+_MAX_PATHS = 400
+_MAX_DEPTH = 6
+
+
+class _Flow:
+    def __init__(self, ctx, lx: _Lexicon, insert_spaces: bool):
+        self.ctx = ctx
+        self.lx = lx
+        self.insert_spaces = insert_spaces
+        self.fresh = itertools.count(1)
+        self.static_cache = {}
+        self.depth = 0
+        self.npaths = 0
+        self.in_main = False
+        self.n_main = 0
+        self.taint = []  # defects: what is yielded is not the stream
+        self.flush = []  # defects: items dropped / left in the buffer
+        self.unk = []  # reasons for "undecided"
+        self.stats = {"iteration_paths": 0, "flush_paths": 0, "inner_loops": 0}
+        self.nonflush_lex = set()
+        self.flush_lex = set()
+
+    # ------------------------------------------------------------------------------------------------ bookkeeping
+    def note(self, kind, text):
+        tgt = {"taint": self.taint, "flush": self.flush, "unk": self.unk}[kind]
+        if text not in tgt:
+            tgt.append(text)
+
+    def fork(self, st):
+        self.npaths += 1
+        if self.npaths > _MAX_PATHS:
+            raise _Undecided("too many paths through the post-processor")
+        return st.clone()
 
     # ------------------------------------------------------------------------------------------------ names
-    def lookup(self, name, scope):
-        s = scope
-        root = scope
-        while s is not None:
-            if name in s.vars:
-                return s.vars[name]
-            root = s
-            s = s.outer
-        f = root.func
-        # free variable of a nested function whose enclosing function is not being executed: a single definition there
-        p = f.parent if f is not None else None
+    def lookup(self, name, st):
+        fr = st.frames[-1]
+        if name in fr.env:
+            return fr.env[name]
+        return self.static_name(fr.static_from, fr.func.module if fr.func is not None else None, name)
+
+    def static_name(self, p, mod, name):
+        """A free name: nested def / single assignment of an enclosing function, then the module, then builtins."""
         while p is not None:
+            mod = p.module
             key = (p.fq, name)
-            if key in self._static:
-                return self._static[key]
-            q = f"{p.qualname}.{name}"
-            nested = _fn_index(p.node)[2].get(name)
+            if key in self.static_cache:
+                return self.static_cache[key]
+            nested = _fn_index(p.node)[2].get(name) if not isinstance(p.node, ast.Lambda) else None
+            v = None
             if nested is not None:
+                q = f"{p.qualname}.{name}"
                 fn = p.module.funcs.get(q)
                 if fn is None or fn.node is not nested:
                     fn = Func(p.module, q, nested, p.cls, p)
-                v = _Closure(fn.node, fn, None)
-                self._static[key] = v
-                return v
-            defs = _own_assignments(p.node, name)
-            if len(defs) == 1 and defs[0][1] is not None:
-                v = self.eval(defs[0][1], _Scope(p))
-                self._static[key] = v
-                return v
-            if defs:
-                raise _Unsupported(f"free variable `{name}` has several definitions in the enclosing function")
-            if name in params(p.node):
-                if p.cls and params(p.node) and name == params(p.node)[0]:
-                    return _Self(f"{p.module.name}.{p.cls}")
-                raise _Unsupported(f"free variable `{name}` is a parameter of the enclosing function")
-            p = p.parent
-        if f is not None:
-            mod = f.module
-            key = (mod.name, name)
-            if key in self._static:
-                return self._static[key]
-            if name in mod.funcs:
-                fn = mod.funcs[name]
-                return _Closure(fn.node, fn, None)
-            if name in mod.consts:
-                v = self.eval(mod.consts[name], _Scope(Func(mod, "<module>", mod.tree, None, None)))
-                self._static[key] = v
-                return v
-            sym = self.ctx.rs.lookup(mod.name, name)
-            if sym is not None and sym.kind == "external":
-                return _Builtin("ext:" + (sym.name or name))
-            if sym is not None and sym.kind == "func":
-                fn = self.ctx.repo.modules[sym.module].funcs.get(sym.name)
-                if fn is not None:
-                    return _Closure(fn.node, fn, None)
-            if sym is not None and sym.kind == "partial":
-                raise _Unsupported(f"module-level functools.partial `{name}`")
-            if sym is not None and sym.kind == "class":
-                return _Builtin("cls:" + sym.fq)
-        if name in _BUILTINS:
-            return _Builtin(name)
-        if name in ("True", "False", "None"):  # pragma: no cover
-            return {"True": True, "False": False, "None": None}[name]
-        raise _Unsupported(f"name `{name}` cannot be resolved")
-
-    def store(self, target, v, scope):
-        if isinstance(target, ast.Name):
-            if target.id in scope.nonlocals:
-                o = scope.outer
-                while o is not None and target.id not in o.vars:
-                    o = o.outer
-                if o is None:
-                    raise _Unsupported(f"nonlocal `{target.id}` is bound in a function that is not being executed")
-                o.vars[target.id] = v
-                return
-            scope.vars[target.id] = v
-        elif isinstance(target, (ast.Tuple, ast.List)):
-            vals = list(self.iterate(v))
-            if any(isinstance(t, ast.Starred) for t in target.elts):
-                raise _Unsupported("starred assignment target")
-            if len(vals) != len(target.elts):
-                raise _Abort("unpacking arity")
-            for t, x in zip(target.elts, vals):
-                self.store(t, x, scope)
-        elif isinstance(target, ast.Subscript):
-            base = self.eval(target.value, scope)
-            if isinstance(base, list):
-                if isinstance(target.slice, ast.Slice):
-                    base[self._slice(target.slice, scope)] = list(self.iterate(v))
-                else:
-                    k = self.eval(target.slice, scope)
-                    if not isinstance(k, int):
-                        raise _Abort("list index")
-                    try:
-                        base[k] = v
-                    except IndexError as e:
-                        raise _Abort(str(e))
-            elif isinstance(base, dict):
-                k = self.eval(target.slice, scope)
-                base[self._key(base, k)] = v
+                v = _Fn(fn, nested)
             else:
-                raise _Unsupported(f"item assignment on {type(base).__name__}")
-        else:
-            raise _Unsupported(f"assignment to {src(target)}")
+                defs = _own_assignments(p.node, name) if not isinstance(p.node, ast.Lambda) else []
+                if len(defs) == 1 and defs[0][1] is not None and isinstance(defs[0][0], (ast.Assign, ast.AnnAssign)):
+                    self.static_cache[key] = _Unk(f"`{name}` is defined in terms of itself")
+                    v = self.static_value(p, defs[0][1])
+                elif defs:
+                    v = _Unk(f"free variable `{name}` has several definitions in the enclosing function")
+                elif name in params(p.node):
+                    ps = params(p.node)
+                    v = _Opq("self") if p.cls and ps and name == ps[0] else _Unk(f"free variable `{name}` is a parameter of the enclosing function")
+            if v is not None:
+                self.static_cache[key] = v
+                return v
+            p = p.parent
+        if mod is not None:
+            key = (mod.name, name)
+            if key in self.static_cache:
+                return self.static_cache[key]
+            v = None
+            if name in mod.funcs:
+                v = _Fn(mod.funcs[name], mod.funcs[name].node)
+            elif name in mod.consts:
+                self.static_cache[key] = _Unk(f"`{name}` is defined in terms of itself")
+                v = self.static_value(None, mod.consts[name], mod)
+            else:
+                sym = self.ctx.rs.lookup(mod.name, name)
+                if sym is not None and sym.kind == "external":
+                    v = _Ext(sym.name or name)
+                elif sym is not None and sym.kind == "func":
+                    fn = self.ctx.repo.modules[sym.module].funcs.get(sym.name)
+                    v = _Fn(fn, fn.node) if fn is not None else None
+                elif sym is not None and sym.kind == "class":
+                    v = _Ext("cls:" + sym.fq)
+                elif sym is not None:
+                    v = _Unk(f"module-level name `{name}` ({sym.kind})")
+            if v is not None:
+                self.static_cache[key] = v
+                return v
+        if name in _BUILTIN_NAMES:
+            return _Ext("builtins." + name)
+        return _Unk(f"name `{name}` cannot be resolved")
 
-    def _key(self, d, k):
-        """The key of dict d that equals k (tokens compare through `eq`), else k itself if hashable."""
-        if isinstance(k, (_Tok, _Cat, _Alt)):
-            for e in d:
-                if self.eq(k, e):
-                    return e
-            if isinstance(k, _Tok):
-                return k
-            raise _Unsupported("derived token text used as a dictionary key")
-        for e in d:
-            if isinstance(e, _Tok) and self.eq(e, k):
-                return e
+    def static_value(self, p, e, mod=None):
+        """Value of an expression written in function p (None: at module level of `mod`): constants and callables only."""
+        st = _State()
+        pseudo = Func(p.module if p is not None else mod, (p.qualname + ".<expr>") if p is not None else "<module>", None, p.cls if p is not None else None, p)
+        st.frames.append(_Frame(pseudo, {}, p))
         try:
-            hash(k)
-        except TypeError as e:
-            raise _Abort(str(e))
-        return k
-
-    def _slice(self, sl, scope):
-        lo = self.eval(sl.lower, scope) if sl.lower is not None else None
-        hi = self.eval(sl.upper, scope) if sl.upper is not None else None
-        st = self.eval(sl.step, scope) if sl.step is not None else None
-        for x in (lo, hi, st):
-            if x is not None and not isinstance(x, int):
-                raise _Abort("slice indices must be integers")
-        return slice(lo, hi, st)
-
-    # ------------------------------------------------------------------------------------------------ statements
-    def block(self, body, scope):
-        for st in body:
-            sig = yield from self.stmt(st, scope)
-            if sig is not None:
-                return sig
-        return None
-
-    def stmt(self, st, scope):
-        self.tick()
-        if isinstance(st, ast.Expr):
-            v = st.value
-            if isinstance(v, ast.Yield):
-                yield (self.eval(v.value, scope) if v.value is not None else None)
-                return None
-            if isinstance(v, ast.YieldFrom):
-                for x in self.iterate(self.eval(v.value, scope)):
-                    self.tick()
-                    yield x
-                return None
-            self.eval(v, scope)
-            return None
-        if isinstance(st, ast.Assign):
-            if isinstance(st.value, (ast.Yield, ast.YieldFrom)):
-                raise _Unsupported("value of a yield expression is used")
-            v = self.eval(st.value, scope)
-            for t in st.targets:
-                self.store(t, v, scope)
-            return None
-        if isinstance(st, ast.AnnAssign):
-            if st.value is not None:
-                self.store(st.target, self.eval(st.value, scope), scope)
-            return None
-        if isinstance(st, ast.AugAssign):
-            load = ast.copy_location(_as_load(st.target), st.target)
-            cur = self.eval(load, scope)
-            rhs = self.eval(st.value, scope)
-            if isinstance(cur, list) and isinstance(st.op, ast.Add):
-                cur.extend(self.iterate(rhs))
-                return None
-            self.store(st.target, self.binop(st.op, cur, rhs), scope)
-            return None
-        if isinstance(st, ast.If):
-            if self.truth(self.eval(st.test, scope)):
-                return (yield from self.block(st.body, scope))
-            return (yield from self.block(st.orelse, scope))
-        if isinstance(st, (ast.For,)):
-            broke = False
-            for x in self.iterate(self.eval(st.iter, scope)):
-                self.tick()
-                self.store(st.target, x, scope)
-                sig = yield from self.block(st.body, scope)
-                if sig == "break":
-                    broke = True
-                    break
-                if sig is not None and sig != "continue":
-                    return sig
-            if not broke and st.orelse:
-                return (yield from self.block(st.orelse, scope))
-            return None
-        if isinstance(st, ast.While):
-            broke = False
-            while self.truth(self.eval(st.test, scope)):
-                self.tick()
-                sig = yield from self.block(st.body, scope)
-                if sig == "break":
-                    broke = True
-                    break
-                if sig is not None and sig != "continue":
-                    return sig
-            if not broke and st.orelse:
-                return (yield from self.block(st.orelse, scope))
-            return None
-        if isinstance(st, ast.Pass):
-            return None
-        if isinstance(st, ast.Break):
-            return "break"
-        if isinstance(st, ast.Continue):
-            return "continue"
-        if isinstance(st, ast.Return):
-            return ("return", self.eval(st.value, scope) if st.value is not None else None)
-        if isinstance(st, ast.Assert):
-            if not self.truth(self.eval(st.test, scope)):
-                raise _Abort("assertion fails")
-            return None
-        if isinstance(st, ast.Raise):
-            raise _Abort("raise " + src(st.exc)[:60] if st.exc is not None else "raise")
-        if isinstance(st, ast.FunctionDef):
-            f = _scope_func(scope)
-            q = f"{f.qualname}.{st.name}" if f is not None else st.name
-            fn = (f.module.funcs.get(q) if f is not None else None)
-            if fn is None or fn.node is not st:
-                fn = Func(f.module, q, st, f.cls, f) if f is not None else None
-            scope.vars[st.name] = _Closure(st, fn, scope)
-            return None
-        if isinstance(st, ast.Delete):
-            for t in st.targets:
-                if isinstance(t, ast.Subscript):
-                    base = self.eval(t.value, scope)
-                    if isinstance(base, list):
-                        try:
-                            if isinstance(t.slice, ast.Slice):
-                                del base[self._slice(t.slice, scope)]
-                            else:
-                                del base[self.eval(t.slice, scope)]
-                        except (IndexError, TypeError) as e:
-                            raise _Abort(str(e))
-                        continue
-                if isinstance(t, ast.Name) and t.id in scope.vars:
-                    del scope.vars[t.id]
-                    continue
-                raise _Unsupported(f"del {src(t)}")
-            return None
-        if isinstance(st, ast.Nonlocal):
-            scope.nonlocals = tuple(scope.nonlocals) + tuple(st.names)
-            return None
-        if isinstance(st, (ast.Import, ast.ImportFrom)):
-            return None
-        raise _Unsupported(f"statement `{type(st).__name__}`")
+            res = self.ev(e, st)
+        except _Undecided as ex:
+            return _Unk(str(ex))
+        if len(res) != 1 or res[0][0].unk:
+            return _Unk(f"`{src(e)[:60]}` is not a constant")
+        return res[0][1]
 
     # ------------------------------------------------------------------------------------------------ expressions
-    def eval(self, e, scope):
-        self.tick()
+    def evs(self, exprs, st):
+        """Evaluate expressions left to right -> [(state, [values])]."""
+        acc = [(st, [])]
+        for e in exprs:
+            nxt = []
+            for s, vals in acc:
+                for s2, v in self.ev(e, s):
+                    nxt.append((s2, vals + [v]))
+            acc = nxt
+        return acc
+
+    def ev(self, e, st):
+        """-> [(state, value)]: one entry per way the evaluation can go (tests inside the expression fork)."""
         if isinstance(e, ast.Constant):
-            return e.value
+            v = e.value
+            if isinstance(v, str):
+                return [(st, _S(v))]
+            if isinstance(v, bool) or v is None:
+                return [(st, v)]
+            if isinstance(v, int):
+                return [(st, _Num(v))]
+            return [(st, _Unk(f"constant {v!r}"))]
         if isinstance(e, ast.Name):
-            return self.lookup(e.id, scope)
+            return [(st, self.lookup(e.id, st))]
         if isinstance(e, ast.NamedExpr):
-            v = self.eval(e.value, scope)
-            self.store(e.target, v, scope)
-            return v
-        if isinstance(e, (ast.List, ast.Tuple, ast.Set)):
-            vals = []
-            for x in e.elts:
-                if isinstance(x, ast.Starred):
-                    vals.extend(self.iterate(self.eval(x.value, scope)))
-                else:
-                    vals.append(self.eval(x, scope))
-            if isinstance(e, ast.List):
-                return vals
-            if isinstance(e, ast.Tuple):
-                return tuple(vals)
-            if any(isinstance(v, (_Cat, _Alt, list, dict)) for v in vals):
-                raise _Unsupported("set of derived values")
-            return set(vals)
-        if isinstance(e, ast.Dict):
-            d = {}
-            for k, v in zip(e.keys, e.values):
-                if k is None:
-                    raise _Unsupported("dict unpacking")
-                d[self._key(d, self.eval(k, scope))] = self.eval(v, scope)
-            return d
-        if isinstance(e, ast.BinOp):
-            return self.binop(e.op, self.eval(e.left, scope), self.eval(e.right, scope))
-        if isinstance(e, ast.UnaryOp):
-            v = self.eval(e.operand, scope)
-            if isinstance(e.op, ast.Not):
-                return not self.truth(v)
-            if isinstance(v, (int, float)):
-                if isinstance(e.op, ast.USub):
-                    return -v
-                if isinstance(e.op, ast.UAdd):
-                    return +v
-                if isinstance(e.op, ast.Invert) and isinstance(v, int):
-                    return ~v
-            raise _Abort(f"bad operand for unary {type(e.op).__name__}")
-        if isinstance(e, ast.BoolOp):
-            v = None
-            for x in e.values:
-                v = self.eval(x, scope)
-                t = self.truth(v)
-                if isinstance(e.op, ast.And) and not t:
-                    return v
-                if isinstance(e.op, ast.Or) and t:
-                    return v
-            return v
-        if isinstance(e, ast.Compare):
-            left = self.eval(e.left, scope)
-            for op, r in zip(e.ops, e.comparators):
-                right = self.eval(r, scope)
-                if not self.compare(op, left, right):
-                    return False
-                left = right
-            return True
-        if isinstance(e, ast.IfExp):
-            return self.eval(e.body if self.truth(self.eval(e.test, scope)) else e.orelse, scope)
-        if isinstance(e, ast.Subscript):
-            return self.subscript(self.eval(e.value, scope), e.slice, scope)
-        if isinstance(e, ast.JoinedStr):
-            vals = []
-            for p in e.values:
-                if isinstance(p, ast.Constant):
-                    vals.append(p.value)
-                else:
-                    v = self.eval(p.value, scope)
-                    if p.format_spec is not None or p.conversion not in (-1, 115):
-                        v = _Alt("formatted with a conversion / format spec") if isinstance(v, (_Tok, _Cat, _Alt)) else self._plain_format(p, v, scope)
-                    vals.append(self.to_str(v))
-            return self.cat(*vals)
-        if isinstance(e, (ast.ListComp, ast.GeneratorExp, ast.SetComp)):
             out = []
-            self._comp(e.generators, 0, _Scope(scope.func, scope), lambda sc: out.append(self.eval(e.elt, sc)))
-            if isinstance(e, ast.ListComp):
-                return out
-            if isinstance(e, ast.GeneratorExp):
-                return _It(out)
-            return set(out)
-        if isinstance(e, ast.DictComp):
-            d = {}
-
-            def put(sc):
-                d[self._key(d, self.eval(e.key, sc))] = self.eval(e.value, sc)
-
-            self._comp(e.generators, 0, _Scope(scope.func, scope), put)
-            return d
+            for s, v in self.ev(e.value, st):
+                self.bind(e.target, v, s)
+                out.append((s, v))
+            return out
+        if isinstance(e, (ast.Tuple, ast.List, ast.Set)):
+            if any(isinstance(x, ast.Starred) for x in e.elts):
+                return [(st, _Unk("starred element"))]
+            out = []
+            for s, vals in self.evs(e.elts, st):
+                if isinstance(e, ast.Tuple):
+                    out.append((s, tuple(vals)))
+                elif isinstance(e, ast.List):
+                    out.append((s, _Lst([("one", v) for v in vals])))
+                else:
+                    out.append((s, frozenset(vals) if all(isinstance(v, (_Str, _Num)) for v in vals) else _Unk("set of non-constants")))
+            return out
+        if isinstance(e, ast.BinOp):
+            return [(s, self.binop(e.op, a, b, s)) for s, (a, b) in self.evs([e.left, e.right], st)]
+        if isinstance(e, ast.UnaryOp):
+            if isinstance(e.op, ast.Not):
+                t, f = self.branch(e.operand, st)
+                return [(s, False) for s in t] + [(s, True) for s in f]
+            out = []
+            for s, v in self.ev(e.operand, st):
+                if isinstance(v, _Num) and isinstance(e.op, ast.USub):
+                    out.append((s, _Num(-v.p)))
+                elif isinstance(v, _Num) and isinstance(e.op, ast.UAdd):
+                    out.append((s, v))
+                else:
+                    out.append((s, _Unk(f"unary {type(e.op).__name__}")))
+            return out
+        if isinstance(e, ast.BoolOp):
+            return self.boolop_value(e, st)
+        if isinstance(e, ast.Compare):
+            t, f = self.branch(e, st)
+            return [(s, True) for s in t] + [(s, False) for s in f]
+        if isinstance(e, ast.IfExp):
+            t, f = self.branch(e.test, st)
+            out = []
+            for s in t:
+                out.extend(self.ev(e.body, s))
+            for s in f:
+                out.extend(self.ev(e.orelse, s))
+            return out
+        if isinstance(e, ast.Subscript):
+            out = []
+            for s, base in self.ev(e.value, st):
+                out.extend(self.subscript(base, e.slice, s))
+            return out
+        if isinstance(e, ast.JoinedStr):
+            exprs = [p.value for p in e.values if isinstance(p, ast.FormattedValue)]
+            out = []
+            for s, vals in self.evs(exprs, st):
+                vals = list(vals)
+                parts = []
+                for p in e.values:
+                    if isinstance(p, ast.Constant):
+                        parts.append(_S(str(p.value)))
+                    else:
+                        v = vals.pop(0)
+                        if p.format_spec is not None or p.conversion not in (-1, 115):
+                            v = _Str((("alt", "formatted with a conversion / format spec"),)) if isinstance(v, _Str) and v.symbolic() else _Unk("formatted value")
+                        parts.append(self.to_str(v))
+                out.append((s, self.cat(parts)))
+            return out
         if isinstance(e, ast.Lambda):
-            return _Closure(e, _scope_func(scope), scope)
+            fr = st.frames[-1]
+            return [(st, _Fn(fr.func, e))]
         if isinstance(e, ast.Attribute):
-            base = self.eval(e.value, scope)
-            return self.attribute(base, e.attr)
+            return [(s, self.attribute(v, e.attr, s)) for s, v in self.ev(e.value, st)]
         if isinstance(e, ast.Call):
-            return self.call(e, scope)
+            return self.call(e, st)
         if isinstance(e, (ast.Yield, ast.YieldFrom)):
-            raise _Unsupported("value of a yield expression is used")
-        raise _Unsupported(f"expression `{type(e).__name__}`")
+            raise _Undecided("the value of a yield expression is used")
+        return [(st, _Unk(f"expression `{type(e).__name__}`"))]
 
-    def _plain_format(self, p, v, scope):
-        spec = self.eval(p.format_spec, scope) if p.format_spec is not None else ""
-        if not isinstance(spec, str):
-            raise _Unsupported("computed format spec")
-        try:
-            if p.conversion == 114:
-                v = repr(v)
-            elif p.conversion == 97:
-                v = ascii(v)
-            elif p.conversion == 115:
-                v = str(v)
-            return format(v, spec)
-        except Exception as ex:
-            raise _Abort(str(ex))
+    def boolop_value(self, e, st):
+        out, pending = [], [st]
+        for i, x in enumerate(e.values):
+            nxt = []
+            for s in pending:
+                for s2, v in self.ev(x, s):
+                    if i == len(e.values) - 1:
+                        out.append((s2, v))
+                        continue
+                    t, f = self.truth(v, s2, src(x))
+                    stop, go = (f, t) if isinstance(e.op, ast.And) else (t, f)
+                    out.extend((s3, v) for s3 in stop)
+                    nxt.extend(go)
+            pending = nxt
+        return out
 
-    def _comp(self, gens, i, scope, emit):
-        if i == len(gens):
-            emit(scope)
-            return
-        g = gens[i]
-        for x in self.iterate(self.eval(g.iter, scope)):
-            self.tick()
-            self.store(g.target, x, scope)
-            if all(self.truth(self.eval(c, scope)) for c in g.ifs):
-                self._comp(gens, i + 1, scope, emit)
+    # -- strings
+    def to_str(self, v):
+        if isinstance(v, _Str):
+            return v
+        if isinstance(v, _Num) and v.const() is not None:
+            return _S(str(v.const()))
+        if v is None or isinstance(v, bool):
+            return _S(str(v))
+        return v if isinstance(v, _Unk) else _Unk("str() of a value that is not a string")
 
-    def attribute(self, base, attr):
-        if isinstance(base, _Self):
-            try:
-                attrs = self.ctx.repo.class_attrs(base.cls_fq)
-            except Exception:
-                attrs = {}
-            mname, _, cname = base.cls_fq.partition(".")
-            mod = self.ctx.repo.modules.get(mname)
-            if mod is not None and f"{cname}.{attr}" in mod.funcs:
-                fn = mod.funcs[f"{cname}.{attr}"]
-                decos = {dotted(d) for d in getattr(fn.node, "decorator_list", [])}
-                if decos & {"staticmethod"}:
-                    return _Closure(fn.node, fn, None)
-                if decos - {"classmethod"}:
-                    raise _Unsupported(f"decorated method {attr}")
-                return _Closure(fn.node, fn, None, recv=base)
-            if attr in attrs:
-                return self.eval(attrs[attr], _Scope(Func(mod, "<class>", mod.tree, None, None)))
-            raise _Unsupported(f"instance attribute self.{attr}")
-        if isinstance(base, _Builtin):
-            return _Builtin(f"{base.name}.{attr}")
-        raise _Unsupported(f"attribute .{attr} of a {type(base).__name__}")
+    def cat(self, vals):
+        parts = []
+        for v in vals:
+            if not isinstance(v, _Str):
+                return v if isinstance(v, _Unk) else _Unk("concatenation with a value that is not a string")
+            parts.extend(v.parts)
+        return _Str(parts)
 
-    def binop(self, op, a, b):
-        sym_a, sym_b = isinstance(a, (_Tok, _Cat, _Alt)), isinstance(b, (_Tok, _Cat, _Alt))
+    def binop(self, op, a, b, st):
+        if isinstance(op, ast.Mult) and ((isinstance(a, _Str) and a.blank() and isinstance(b, _Unk)) or (isinstance(b, _Str) and b.blank() and isinstance(a, _Unk))):
+            return _Str((("ws", None),))  # whitespace repeated any number of times is whitespace or empty
+        if isinstance(a, _Unk) or isinstance(b, _Unk):
+            return a if isinstance(a, _Unk) else b
         if isinstance(op, ast.Add):
-            if sym_a or sym_b:
-                return self.cat(a, b)
-            if isinstance(a, list) and isinstance(b, list):
-                return a + b
+            if isinstance(a, _Str) and isinstance(b, _Str):
+                return self.cat([a, b])
+            if isinstance(a, _Num) and isinstance(b, _Num):
+                return _Num(a.p + b.p)
+            if isinstance(a, _Lst) and isinstance(b, _Lst):
+                return _Lst(list(a.parts) + list(b.parts))
             if isinstance(a, tuple) and isinstance(b, tuple):
                 return a + b
-        if isinstance(op, ast.Mult) and (sym_a or sym_b):
-            s, n = (a, b) if sym_a else (b, a)
-            if not isinstance(n, int):
-                raise _Abort("can't multiply sequence by non-int")
-            if isinstance(s, _Alt):
-                return s
-            if n > 64:
-                raise _Unsupported("large repetition of token text")
-            return self.cat(*([s] * max(n, 0))) if n > 0 else ""
-        if isinstance(op, ast.Mod) and isinstance(a, str) and (sym_b or (isinstance(b, tuple) and any(isinstance(x, (_Tok, _Cat, _Alt)) for x in b))):
-            args = list(b) if isinstance(b, tuple) else [b]
-            pieces = a.split("%s")
-            if "%" in "".join(pieces).replace("%%", "") or len(pieces) != len(args) + 1:
-                return _Alt("%-formatted with a conversion other than %s")
-            out = [pieces[0].replace("%%", "%")]
-            for x, lit in zip(args, pieces[1:]):
-                out += [self.to_str(x), lit.replace("%%", "%")]
-            return self.cat(*out)
-        if sym_a or sym_b:
-            raise _Unsupported(f"operator {type(op).__name__} on token text")
-        if isinstance(a, (_It, _Closure, _Self, _Builtin)) or isinstance(b, (_It, _Closure, _Self, _Builtin)):
-            raise _Abort(f"unsupported operand for {type(op).__name__}")
-        try:
-            if isinstance(op, ast.Add):
-                return a + b
-            if isinstance(op, ast.Sub):
-                return a - b
-            if isinstance(op, ast.Mult):
-                if isinstance(a, (str, list, tuple)) and isinstance(b, int) and b * max(len(a), 1) > 1 << 16 or isinstance(b, (str, list, tuple)) and isinstance(a, int) and a * max(len(b), 1) > 1 << 16:
-                    raise _Unsupported("very large repetition")
-                return a * b
-            if isinstance(op, ast.FloorDiv):
-                return a // b
-            if isinstance(op, ast.Div):
-                return a / b
-            if isinstance(op, ast.Mod):
-                if isinstance(a, str) and any(isinstance(x, (list, dict)) for x in (b if isinstance(b, tuple) else (b,))):
-                    raise _Unsupported("%-format of a container")
-                return a % b
-            if isinstance(op, ast.Pow):
-                if isinstance(a, int) and isinstance(b, int) and 0 <= b <= 64 and abs(a) <= 1 << 16:
-                    return a ** b
-                raise _Unsupported("pow")
-            if isinstance(op, ast.BitAnd):
-                return a & b
-            if isinstance(op, ast.BitOr):
-                return a | b
-            if isinstance(op, ast.BitXor):
-                return a ^ b
-            if isinstance(op, ast.LShift) and isinstance(b, int) and b < 64:
-                return a << b
-            if isinstance(op, ast.RShift):
-                return a >> b
-        except _Unsupported:
-            raise
-        except Exception as ex:
-            raise _Abort(str(ex))
-        raise _Unsupported(f"operator {type(op).__name__}")
-
-    def compare(self, op, a, b):
-        if isinstance(op, ast.Eq):
-            return self.eq(a, b)
-        if isinstance(op, ast.NotEq):
-            return not self.eq(a, b)
-        if isinstance(op, ast.In):
-            return self.contains(b, a)
-        if isinstance(op, ast.NotIn):
-            return not self.contains(b, a)
-        if isinstance(op, (ast.Is, ast.IsNot)):
-            if isinstance(a, _Tok) and isinstance(b, _Tok):
-                same = a.idx == b.idx
-            elif a is None or b is None or isinstance(a, bool) or isinstance(b, bool):
-                same = a is b
-            elif isinstance(a, (list, dict, set, _It, _Closure)) or isinstance(b, (list, dict, set, _It, _Closure)):
-                same = a is b
-            else:
-                raise _Unsupported("identity comparison of values")
-            return same if isinstance(op, ast.Is) else not same
-        sym = (_Tok, _Cat, _Alt)
-        if isinstance(a, sym) or isinstance(b, sym):
-            if isinstance(a, _STRINGISH) and isinstance(b, _STRINGISH):
-                ta = a.text if isinstance(a, _Tok) else a if isinstance(a, str) else None
-                tb = b.text if isinstance(b, _Tok) else b if isinstance(b, str) else None
-                if ta is not None and tb is not None:
-                    a, b = ta, tb
-                else:
-                    return self.choose(None)
-            else:
-                raise _Abort("ordering of str and non-str")
-        try:
-            if isinstance(op, ast.Lt):
-                return a < b
-            if isinstance(op, ast.LtE):
-                return a <= b
-            if isinstance(op, ast.Gt):
-                return a > b
-            if isinstance(op, ast.GtE):
-                return a >= b
-        except Exception as ex:
-            raise _Abort(str(ex))
-        raise _Unsupported(f"comparison {type(op).__name__}")
-
-    def subscript(self, base, sl, scope):
-        if isinstance(sl, ast.Slice):
-            s = self._slice(sl, scope)
-            if isinstance(base, (list, tuple, str, range)):
-                return base[s]
-            if isinstance(base, (_Tok, _Cat, _Alt)):
-                return _Alt("slice of token text")
-            raise _Abort(f"{type(base).__name__} is not subscriptable")
-        k = self.eval(sl, scope)
-        if isinstance(base, (list, tuple, str, range)):
-            if isinstance(k, bool) or not isinstance(k, int):
-                raise _Abort("indices must be integers")
+        if isinstance(op, ast.Sub) and isinstance(a, _Num) and isinstance(b, _Num):
+            return _Num(a.p - b.p)
+        if isinstance(op, ast.Mult):
+            if isinstance(a, _Num) and isinstance(b, _Num):
+                return _Num(a.p * b.p)
+            s, n = (a, b) if isinstance(a, _Str) else (b, a)
+            if isinstance(s, _Str) and s.blank() and isinstance(n, _Opq):
+                return _Str((("ws", None),))  # whitespace repeated any number of times is whitespace or empty
+            if isinstance(s, _Str) and isinstance(n, _Num):
+                c = n.const()
+                if c is not None and c <= 0:
+                    return _S("")
+                if c is not None and c <= 64:
+                    return _Str(s.parts * c)
+                if s.blank():
+                    # a repetition of whitespace is whitespace; it is non-empty iff the string is and the count is >= 1
+                    if s.text and _ge0(st, n.p - _k(1)):
+                        return _Str((("txt", s.text[0]), ("ws", None)))
+                    return _Str((("ws", None),))
+                return _Unk("repetition of item text")
+        if isinstance(a, _Num) and isinstance(b, _Num) and a.const() is not None and b.const() is not None:
+            x, y = a.const(), b.const()  # constant folding
             try:
-                return base[k]
-            except IndexError as ex:
-                raise _Abort(str(ex))
-        if isinstance(base, dict):
-            kk = self._key(base, k)
-            if kk not in base:
-                raise _Abort(f"KeyError {k!r}")
-            return base[kk]
-        if isinstance(base, (_Tok, _Cat, _Alt)):
-            if isinstance(base, _Tok) and base.text is not None and isinstance(k, int):
-                try:
-                    return base.text[k]
-                except IndexError as ex:
-                    raise _Abort(str(ex))
-            return _Alt("character of token text")
-        if isinstance(base, (_Self, _Builtin)):
-            raise _Unsupported("subscript of an object the executor does not model")
-        raise _Abort(f"{type(base).__name__} is not subscriptable")
+                if isinstance(op, ast.FloorDiv):
+                    return _Num(x // y)
+                if isinstance(op, ast.Mod):
+                    return _Num(x % y)
+                if isinstance(op, ast.Pow) and 0 <= y <= 16 and abs(x) <= 1 << 16:
+                    return _Num(x ** y)
+                if isinstance(op, ast.LShift) and 0 <= y < 32:
+                    return _Num(x << y)
+                if isinstance(op, ast.RShift) and y >= 0:
+                    return _Num(x >> y)
+                if isinstance(op, ast.BitAnd):
+                    return _Num(x & y)
+                if isinstance(op, ast.BitOr):
+                    return _Num(x | y)
+            except (ZeroDivisionError, ValueError):
+                return _Unk("constant expression raises")
+        if isinstance(op, ast.Mod) and isinstance(a, _Str) and a.text is not None:
+            args = list(b) if isinstance(b, tuple) else [b]
+            pieces = a.text.split("%s")
+            if "%" not in "".join(pieces) and len(pieces) == len(args) + 1:
+                out = [_S(pieces[0])]
+                for x, lit in zip(args, pieces[1:]):
+                    out += [self.to_str(x), _S(lit)]
+                return self.cat(out)
+            if any(isinstance(x, _Str) and x.symbolic() for x in args):
+                return _Str((("alt", "%-formatted with a conversion other than %s"),))
+        return _Unk(f"operator {type(op).__name__} on these operands")
+
+    # -- attributes / subscripts
+    def attribute(self, base, attr, st):
+        if isinstance(base, _Opq) and base.label == "self":
+            fr = next((f for f in reversed(st.frames) if f.func is not None and f.func.cls), None)
+            p = fr.func if fr is not None else None
+            if p is None:
+                return _Unk(f"self.{attr}")
+            mod = p.module
+            q = f"{p.cls}.{attr}"
+            if q in mod.funcs:
+                fn = mod.funcs[q]
+                decos = {dotted(d) for d in getattr(fn.node, "decorator_list", [])}
+                if "staticmethod" in decos:
+                    return _Fn(fn, fn.node)
+                if decos - {"classmethod"}:
+                    return _Unk(f"decorated method {attr}")
+                return _Fn(fn, fn.node, recv=True)
+            try:
+                attrs = self.ctx.repo.class_attrs(f"{mod.name}.{p.cls}")
+            except Exception:
+                attrs = {}
+            if attr in attrs:
+                return self.static_value(None, attrs[attr], mod)
+            return _Unk(f"instance attribute self.{attr}")
+        if isinstance(base, _Ext):
+            return _Ext(f"{base.name}.{attr}")
+        if isinstance(base, _Unk):
+            return base
+        return _Unk(f"attribute .{attr}")
+
+    def index_in(self, lst, p, st):
+        """Item of a list term at the integer term p -> value (records an IndexError defect when it is provable)."""
+        parts = _canon(lst.parts)
+        n = _length(parts)
+        if n is None:
+            return _Unk("index into a list built by a loop")
+        c = p.const_value()
+        if c is not None and c < 0:
+            p = n + p
+        if not (_ge0(st, p) and _ge0(st, n - _k(1) - p)):
+            top = _at_upper(p, st.loops)
+            if top is not None and _basic_ge0(top - n, []) and not any(set(f.atoms()) & {a for a, _c in st.loops} for f in st.ge0):
+                st.viol.append(("taint", "reads the buffered line one position past its end when it handles the last buffered item (IndexError): no bounds test guards the index"))
+                st.unk.append("index past the end")
+            return _Unk("index not provably inside the list")
+        off = _k(0)
+        for part in parts:
+            if part[0] == "seg":
+                ln = part[2] - part[1]
+                if _ge0(st, p - off) and _ge0(st, off + ln - _k(1) - p):
+                    return _T(part[1] + (p - off)) if not part[3] else _Unk("index into a constant-bounded slice")
+                off = off + ln
+            else:
+                if p == off:
+                    return part[1]
+                off = off + _k(1)
+        return _Unk("index position not located")
+
+    def slice_of(self, lst, sl, s):
+        """List term for lst[a:b] -> [(state, value)]."""
+        if sl.step is not None:
+            return [(s, _Unk("slice with a step"))]
+        out = []
+        for s2, (a, b) in self.evs([x if x is not None else ast.Constant(value=None) for x in (sl.lower, sl.upper)], s):
+            parts = _canon(lst.parts)
+            if not parts:
+                out.append((s2, _Lst()))
+                continue
+            if len(parts) != 1 or parts[0][0] != "seg":
+                out.append((s2, _Unk("slice of a list that is not one run of buffered items")))
+                continue
+            _t, lo, hi, note = parts[0]
+            ln = hi - lo
+            bounds = []
+            for v, dflt in ((a, _k(0)), (b, ln)):
+                if v is None:
+                    bounds.append((dflt, None))
+                elif isinstance(v, _Num):
+                    p = v.p
+                    c = p.const_value()
+                    if c is not None and c < 0:
+                        p = ln + p
+                    if _ge0(s2, p) and _ge0(s2, ln - p):
+                        bounds.append((p, None))
+                    elif c is not None:
+                        bounds.append((p, f"constant slice bound {int(c)}"))  # python clips it: min(c, len) / max(len + c, 0)
+                    else:
+                        bounds = None
+                        break
+                else:
+                    bounds = None
+                    break
+            if bounds is None:
+                out.append((s2, _Unk("slice bounds not modelled")))
+                continue
+            (pa, na), (pb, nb) = bounds
+            out.append((s2, _Lst([("seg", lo + pa, lo + pb, note or na or nb)])))
+        return out
+
+    def subscript(self, base, sl, s):
+        if isinstance(base, _Unk):
+            return [(s, base)]
+        if isinstance(sl, ast.Slice):
+            if isinstance(base, _Lst):
+                return self.slice_of(base, sl, s)
+            if isinstance(base, _Str):
+                if base.text is not None:
+                    out = []
+                    for s2, (a, b) in self.evs([x if x is not None else ast.Constant(value=None) for x in (sl.lower, sl.upper)], s):
+                        ca, cb = (a.const() if isinstance(a, _Num) else a), (b.const() if isinstance(b, _Num) else b)
+                        ok = all(x is None or isinstance(x, int) for x in (ca, cb)) and sl.step is None
+                        out.append((s2, _S(base.text[ca:cb]) if ok else _Unk("slice of a constant")))
+                    return out
+                return [(s, _Str((("alt", "a slice of the item text"),)))]
+            return [(s, _Unk("slice of this value"))]
+        out = []
+        for s2, k in self.ev(sl, s):
+            if isinstance(base, _Lst) and isinstance(k, _Num):
+                out.append((s2, self.index_in(base, k.p, s2)))
+            elif isinstance(base, tuple) and isinstance(k, _Num) and k.const() is not None and -len(base) <= k.const() < len(base):
+                out.append((s2, base[k.const()]))
+            elif isinstance(base, _Str) and base.text is not None and isinstance(k, _Num) and k.const() is not None and -len(base.text) <= k.const() < len(base.text):
+                out.append((s2, _S(base.text[k.const()])))
+            elif isinstance(base, _Str) and base.symbolic():
+                out.append((s2, _Str((("alt", "a character of the item text"),))))
+            else:
+                out.append((s2, _Unk("subscript not modelled")))
+        return out
+
+    # ------------------------------------------------------------------------------------------------ tests
+    def branch(self, test, st):
+        """-> (states in which the test holds, states in which it does not).  A state appears on a side only if the facts
+        of the path do not exclude it; the facts the outcome adds are recorded in the state."""
+        if isinstance(test, ast.BoolOp):
+            is_and = isinstance(test.op, ast.And)
+            go, done = [st], []
+            for v in test.values:
+                nxt = []
+                for s in go:
+                    t, f = self.branch(v, s)
+                    nxt.extend(t if is_and else f)
+                    done.extend(f if is_and else t)
+                go = nxt
+            return (go, done) if is_and else (done, go)
+        if isinstance(test, ast.UnaryOp) and isinstance(test.op, ast.Not):
+            t, f = self.branch(test.operand, st)
+            return f, t
+        if isinstance(test, ast.Compare):
+            if len(test.ops) != 1:
+                parts = []
+                left = test.left
+                for op, r in zip(test.ops, test.comparators):
+                    parts.append(ast.Compare(left=left, ops=[op], comparators=[r]))
+                    left = r
+                return self.branch(ast.BoolOp(op=ast.And(), values=parts), st)
+            T, F = [], []
+            for s, (a, b) in self.evs([test.left, test.comparators[0]], st):
+                t, f = self.cmp(test.ops[0], a, b, s, src(test))
+                T.extend(t)
+                F.extend(f)
+            return T, F
+        T, F = [], []
+        for s, v in self.ev(test, st):
+            t, f = self.truth(v, s, src(test))
+            T.extend(t)
+            F.extend(f)
+        return T, F
+
+    def opaque(self, label, st):
+        """A test the analysis cannot decide: both outcomes, each remembered under `label` for the rest of the path."""
+        if label in st.opq:
+            return ([st], []) if st.opq[label] else ([], [st])
+        s2 = self.fork(st)
+        st.opq[label] = True
+        s2.opq[label] = False
+        return [st], [s2]
+
+    def truth(self, v, st, label):
+        if v is None or isinstance(v, bool):
+            return ([st], []) if v else ([], [st])
+        if isinstance(v, _Num):
+            if _ge0(st, v.p - _k(1)) or _ge0(st, -v.p - _k(1)):
+                return [st], []
+            if v.p == _k(0):
+                return [], [st]
+            return self.opaque("truth:" + repr(v.p), st)
+        if isinstance(v, _Str):
+            if v.text is not None:
+                return ([st], []) if v.text else ([], [st])
+            if any(p[0] in ("tok",) or (p[0] == "txt") for p in v.parts):
+                return [st], []  # LT: an item of the stream is a lexeme, never the empty string
+            return self.opaque("truth:" + label, st)
+        if isinstance(v, _Lst):
+            n = _length(_canon(v.parts))
+            if n is not None and _ge0(st, n - _k(1)):
+                return [st], []
+            if n is not None and n == _k(0):
+                return [], [st]
+            return self.opaque(f"truth:{v.uid}.{v.ver}.{len(v.parts)}", st)
+        if isinstance(v, (tuple, frozenset)):
+            return ([st], []) if v else ([], [st])
+        if isinstance(v, _Opq):
+            return self.opaque("opq:" + v.label, st)
+        if isinstance(v, _Unk):
+            return self.opaque("unk:" + label, st)
+        return [st], []
+
+    def refine(self, idx, st, true_if, positive):
+        """Split on a three-valued predicate over the lexemes item W[idx] can be."""
+        cur = st.lex.get(idx, self.lx.all)
+        yes = frozenset(v for v in cur if true_if(v) is not False)
+        no = frozenset(v for v in cur if true_if(v) is not True)
+        T, F = [], []
+        if yes and no:
+            s2 = self.fork(st)
+            st.lex[idx] = yes
+            s2.lex[idx] = no
+            T, F = [st], [s2]
+        elif yes:
+            T = [st]
+        else:
+            F = [st]
+        return (T, F) if positive else (F, T)
+
+    def cmp(self, op, a, b, st, label):
+        neg = isinstance(op, (ast.NotEq, ast.NotIn, ast.IsNot))
+        if isinstance(op, (ast.Eq, ast.NotEq)):
+            if isinstance(b, _Str) and b.tok() is not None and not (isinstance(a, _Str) and a.tok() is not None):
+                a, b = b, a
+            if isinstance(a, _Str) and a.tok() is not None and isinstance(b, _Str) and b.text is not None:
+                c = b.text
+                return self.refine(a.tok(), st, lambda v: self.lx.eq(v, c), not neg)
+            if isinstance(a, _Str) and a.tok() is not None and isinstance(b, _Str) and b.tok() is not None and a.tok() == b.tok():
+                res = True
+            elif isinstance(a, _Str) and isinstance(b, _Str) and a.text is not None and b.text is not None:
+                res = a.text == b.text
+            elif isinstance(a, _Num) and isinstance(b, _Num):
+                d = a.p - b.p
+                res = True if d == _k(0) else False if (_ge0(st, d - _k(1)) or _ge0(st, -d - _k(1))) else None
+            elif (a is None or isinstance(a, bool)) and (b is None or isinstance(b, bool)):
+                res = a is b
+            elif a is None or b is None:
+                other = b if a is None else a
+                res = False if isinstance(other, (_Str, _Num, _Lst, tuple, _Fn)) else None
+            elif isinstance(a, _Str) and a.symbolic() and isinstance(b, (_Num, _Lst, tuple)):
+                res = False
+            else:
+                res = None
+            if res is None:
+                t, f = self.opaque("cmp:" + label.replace("!=", "=="), st)
+                return (f, t) if neg else (t, f)
+            return ([st], []) if res != neg else ([], [st])
+        if isinstance(op, (ast.Is, ast.IsNot)):
+            if a is None and b is None:
+                res = True
+            elif a is None or b is None:
+                other = b if a is None else a
+                res = False if isinstance(other, (_Str, _Num, _Lst, tuple, bool, _Fn, _Stream)) else None
+            elif isinstance(a, bool) and isinstance(b, bool):
+                res = a is b
+            else:
+                res = None
+            if res is None:
+                t, f = self.opaque("is:" + label.replace("is not", "is"), st)
+                return (f, t) if neg else (t, f)
+            return ([st], []) if res != neg else ([], [st])
+        if isinstance(op, (ast.In, ast.NotIn)):
+            cont = self.container(b)
+            if isinstance(a, _Str) and a.tok() is not None and cont is not None:
+                kind, items = cont
+                if kind == "str":
+                    return self.refine(a.tok(), st, lambda v: self.lx.within(v, items), not neg)
+
+                def member(v):
+                    rs = [self.lx.eq(v, c) for c in items]
+                    return True if any(r is True for r in rs) else None if any(r is None for r in rs) else False
+
+                return self.refine(a.tok(), st, member, not neg)
+            if isinstance(a, _Str) and a.text is not None and cont is not None:
+                kind, items = cont
+                res = (a.text in items) if kind == "str" else (a.text in set(items))
+                return ([st], []) if res != neg else ([], [st])
+            if isinstance(b, _Lst):
+                if not _canon(b.parts):
+                    return ([], [st]) if not neg else ([st], [])
+                key = f"in:{a!r}:{b.uid}.{b.ver}.{len(b.parts)}"
+                # `c in line` for a constant c: known when every element's lexeme set decides it - only the item just
+                # appended is known individually, so the test stays opaque (same list state -> same answer)
+                t, f = self.opaque(key, st)
+                return (f, t) if neg else (t, f)
+            t, f = self.opaque("in:" + label.replace("not in", "in"), st)
+            return (f, t) if neg else (t, f)
+        if isinstance(op, (ast.Lt, ast.LtE, ast.Gt, ast.GtE)) and isinstance(a, _Num) and isinstance(b, _Num):
+            # normalise to  d >= 0  (true side)  /  -d - 1 >= 0  (false side)
+            if isinstance(op, ast.Gt):
+                d = a.p - b.p - _k(1)
+            elif isinstance(op, ast.GtE):
+                d = a.p - b.p
+            elif isinstance(op, ast.Lt):
+                d = b.p - a.p - _k(1)
+            else:
+                d = b.p - a.p
+            if _ge0(st, d):
+                return [st], []
+            nd = -d - _k(1)
+            if _ge0(st, nd):
+                return [], [st]
+            s2 = self.fork(st)
+            st.ge0.append(d)
+            s2.ge0.append(nd)
+            return [st], [s2]
+        return self.opaque("cmp:" + label, st)
+
+    @staticmethod
+    def container(v):
+        """A constant container -> ("str", text) | ("set", [texts]) (else None)."""
+        if isinstance(v, _Str) and v.text is not None:
+            return "str", v.text
+        items = None
+        if isinstance(v, (tuple, frozenset)):
+            items = list(v)
+        elif isinstance(v, _Lst) and all(p[0] == "one" for p in v.parts) and v.parts:
+            items = [p[1] for p in v.parts]
+        if items is not None and all(isinstance(x, _Str) and x.text is not None for x in items):
+            return "set", [x.text for x in items]
+        return None
 
     # ------------------------------------------------------------------------------------------------ calls
-    def call(self, e, scope):
-        args, kwargs = [], {}
-        fn = e.func
-        # method calls on values
-        if isinstance(fn, ast.Attribute):
-            recv = self.eval(fn.value, scope)
-            if not isinstance(recv, (_Self, _Builtin)):
-                args, kwargs = self._args(e, scope)
-                return self.method(recv, fn.attr, args, kwargs)
-            callee = self.attribute(recv, fn.attr)
-        else:
-            callee = self.eval(fn, scope)
-        args, kwargs = self._args(e, scope)
-        return self.apply(callee, args, kwargs)
+    def call(self, e, st):
+        if any(isinstance(a, ast.Starred) for a in e.args) or any(k.arg is None for k in e.keywords):
+            return [(st, _Unk("call with * / ** arguments"))]
+        out = []
+        if isinstance(e.func, ast.Attribute):
+            for s, recv in self.ev(e.func.value, st):
+                for s2, vals in self.evs(list(e.args) + [k.value for k in e.keywords], s):
+                    args, kw = vals[: len(e.args)], dict(zip([k.arg for k in e.keywords], vals[len(e.args):]))
+                    if isinstance(recv, (_Ext,)) or (isinstance(recv, _Opq) and recv.label == "self"):
+                        out.extend(self.apply(self.attribute(recv, e.func.attr, s2), args, kw, s2, e))
+                    else:
+                        out.extend(self.method(recv, e.func.attr, args, kw, s2, e))
+            return out
+        for s, callee in self.ev(e.func, st):
+            for s2, vals in self.evs(list(e.args) + [k.value for k in e.keywords], s):
+                args, kw = vals[: len(e.args)], dict(zip([k.arg for k in e.keywords], vals[len(e.args):]))
+                out.extend(self.apply(callee, args, kw, s2, e))
+        return out
 
-    def _args(self, e, scope):
-        args, kwargs = [], {}
-        for a in e.args:
-            if isinstance(a, ast.Starred):
-                args.extend(self.iterate(self.eval(a.value, scope)))
-            else:
-                args.append(self.eval(a, scope))
-        for k in e.keywords:
-            if k.arg is None:
-                d = self.eval(k.value, scope)
-                if not isinstance(d, dict) or not all(isinstance(x, str) for x in d):
-                    raise _Unsupported("** of a non-constant mapping")
-                kwargs.update(d)
-            else:
-                kwargs[k.arg] = self.eval(k.value, scope)
-        return args, kwargs
+    def escape(self, args, st, what):
+        """Arguments handed to code that is not modelled: a list among them may be changed there."""
+        for a in args:
+            if isinstance(a, _Lst):
+                a.ver += 1
+                st.unk.append(f"a list is handed to {what}, which is not modelled")
 
-    def apply(self, callee, args, kwargs):
-        if isinstance(callee, _Closure):
-            return self.invoke(callee, args, kwargs)
-        if isinstance(callee, _Builtin):
-            return self.builtin(callee.name, args, kwargs)
-        raise _Abort(f"{type(callee).__name__} object is not callable")
+    def apply(self, callee, args, kw, st, e):
+        if isinstance(callee, _Fn):
+            return self.call_fn(callee, args, kw, st)
+        if isinstance(callee, _Ext):
+            return self.builtin(callee.name, args, kw, st, e)
+        self.escape(list(args) + list(kw.values()), st, f"`{src(e.func)[:40]}`")
+        return [(st, callee if isinstance(callee, _Unk) else _Unk(f"call of `{src(e.func)[:40]}`"))]
 
-    def invoke(self, c: _Closure, args, kwargs):
-        node = c.node
+    def call_fn(self, fn: _Fn, args, kw, st):
+        node = fn.node
         a = node.args
         if a.vararg is not None or a.kwarg is not None:
-            raise _Unsupported("callee with *args / **kwargs")
-        args = list(c.bound.get(None, ())) + list(args)
-        kw = {k: v for k, v in c.bound.items() if k is not None}
-        kw.update(kwargs)
-        if c.recv is not None:
-            args = [c.recv] + args
+            return [(st, _Unk("callee with *args / **kwargs"))]
+        args = list(fn.pos) + list(args)
+        kws = dict(fn.kw)
+        kws.update(kw)
+        if fn.recv:
+            args = [_Opq("self")] + args
         names = [x.arg for x in a.posonlyargs + a.args]
         if len(args) > len(names):
-            raise _Abort("too many positional arguments")
-        scope = _Scope(c.func, c.outer)
-        for n, v in zip(names, args):
-            scope.vars[n] = v
+            return [(st, _Unk("too many positional arguments"))]
+        env = dict(zip(names, args))
         defaults = dict(zip(names[len(names) - len(a.defaults):], a.defaults))
         for x, d in zip(a.kwonlyargs, a.kw_defaults):
             names.append(x.arg)
             if d is not None:
                 defaults[x.arg] = d
-        for k, v in kw.items():
-            if k not in names or k in scope.vars:
-                raise _Abort(f"unexpected / duplicate argument {k}")
-            scope.vars[k] = v
+        for k, v in kws.items():
+            if k not in names or k in env:
+                return [(st, _Unk(f"unexpected / duplicate argument {k}"))]
+            env[k] = v
+        owner = fn.func
+        real = owner is not None and getattr(owner, "node", None) is not None
         for n in names:
-            if n not in scope.vars:
+            if n not in env:
                 if n not in defaults:
-                    raise _Abort(f"missing argument {n}")
-                scope.vars[n] = self.eval(defaults[n], _Scope(c.func, c.outer))
-        self.depth += 1
-        if self.depth > self.MAX_DEPTH:
-            raise _Unsupported("call depth")
-        try:
-            if isinstance(node, ast.Lambda):
-                return self.eval(node.body, scope)
+                    return [(st, _Unk(f"missing argument {n}"))]
+                env[n] = self.static_value(owner if real else (owner.parent if owner is not None else None), defaults[n], owner.module if owner is not None else None)
+        if isinstance(node, ast.Lambda):
+            frame = _Frame(owner, env, owner if real else (owner.parent if owner is not None else None))
+        else:
+            frame = _Frame(owner, env, owner.parent)
             if _is_generator(node):
-                return _It(self._gen(node, scope))
-            gen = self.block(node.body, scope)
-            try:
-                next(gen)
-            except StopIteration as stop:
-                sig = stop.value
-                return sig[1] if isinstance(sig, tuple) else None
-            raise _Unsupported("yield in a non-generator")  # pragma: no cover
+                return [(st, _Gen(fn, env))]
+        if self.depth >= _MAX_DEPTH:
+            return [(st, _Unk("call depth"))]
+        self.depth += 1
+        try:
+            st.frames.append(frame)
+            out = []
+            if isinstance(node, ast.Lambda):
+                for s, v in self.ev(node.body, st):
+                    s.frames.pop()
+                    out.append((s, v))
+                return out
+            for s, sig in self.block(node.body, st):
+                s.frames.pop()
+                if sig == "raise":
+                    s.unk.append("a helper may raise")
+                out.append((s, sig[1] if isinstance(sig, tuple) else None))
+            return out
         finally:
             self.depth -= 1
 
-    def _gen(self, node, scope):
-        sig = yield from self.block(node.body, scope)
-        return sig
-
-    def method(self, recv, name, args, kwargs):
-        if kwargs and not (isinstance(recv, str) and name == "format"):
-            raise _Unsupported(f"keyword arguments in .{name}()")
+    def run_gen(self, g: _Gen, st):
+        """Consume a generator call in place (`yield from g(...)`): its yields go to the output."""
+        if self.depth >= _MAX_DEPTH:
+            st.unk.append("call depth")
+            return [(st, None)]
+        self.depth += 1
         try:
-            if isinstance(recv, list):
-                return self._list_method(recv, name, args)
-            if isinstance(recv, dict):
-                return self._dict_method(recv, name, args)
-            if isinstance(recv, (set, frozenset)):
-                if name in ("add", "discard", "remove") and isinstance(recv, set) and len(args) == 1:
-                    k = args[0]
-                    present = next((x for x in recv if self.eq(x, k)), None)
-                    if name == "add":
-                        if present is None:
-                            if isinstance(k, (_Cat, _Alt, list, dict)):
-                                raise _Unsupported("set of derived values")
-                            recv.add(k)
-                    elif present is not None:
-                        recv.discard(present)
-                    elif name == "remove":
-                        raise _Abort("KeyError")
-                    return None
-                if name == "copy":
-                    return set(recv)
-                if name == "clear" and isinstance(recv, set):
-                    recv.clear()
-                    return None
-                raise _Unsupported(f"set method .{name}()")
-            if isinstance(recv, tuple):
-                if name == "index" and len(args) == 1:
-                    for i, x in enumerate(recv):
-                        if self.eq(x, args[0]):
-                            return i
-                    raise _Abort("ValueError")
-                if name == "count" and len(args) == 1:
-                    return sum(1 for x in recv if self.eq(x, args[0]))
-                raise _Unsupported(f"tuple method .{name}()")
-            if isinstance(recv, _STRINGISH):
-                return self._str_method(recv, name, args, kwargs)
-        except (_Unsupported, _Abort):
-            raise
-        except Exception as ex:
-            raise _Abort(f"{type(ex).__name__}: {ex}")
-        raise _Unsupported(f"method .{name}() of a {type(recv).__name__}")
-
-    def _list_method(self, recv, name, args):
-        if name == "append" and len(args) == 1:
-            recv.append(args[0])
-            return None
-        if name == "extend" and len(args) == 1:
-            recv.extend(self.iterate(args[0]))
-            return None
-        if name == "clear" and not args:
-            recv.clear()
-            return None
-        if name == "pop" and len(args) <= 1:
-            if args and not isinstance(args[0], int):
-                raise _Abort("pop index")
-            return recv.pop(*args)
-        if name == "insert" and len(args) == 2 and isinstance(args[0], int):
-            recv.insert(args[0], args[1])
-            return None
-        if name == "copy" and not args:
-            return list(recv)
-        if name == "reverse" and not args:
-            recv.reverse()
-            return None
-        if name in ("index", "count", "remove") and len(args) == 1:
-            hits = [i for i, x in enumerate(recv) if self.eq(x, args[0])]
-            if name == "count":
-                return len(hits)
-            if not hits:
-                raise _Abort("ValueError: not in list")
-            if name == "index":
-                return hits[0]
-            del recv[hits[0]]
-            return None
-        raise _Unsupported(f"list method .{name}()")
-
-    def _dict_method(self, recv, name, args):
-        if name == "get" and 1 <= len(args) <= 2:
-            k = self._key(recv, args[0])
-            return recv[k] if k in recv else (args[1] if len(args) == 2 else None)
-        if name == "setdefault" and len(args) == 2:
-            k = self._key(recv, args[0])
-            return recv.setdefault(k, args[1])
-        if name == "pop" and 1 <= len(args) <= 2:
-            k = self._key(recv, args[0])
-            if k in recv:
-                return recv.pop(k)
-            if len(args) == 2:
-                return args[1]
-            raise _Abort("KeyError")
-        if name == "keys" and not args:
-            return list(recv.keys())
-        if name == "values" and not args:
-            return list(recv.values())
-        if name == "items" and not args:
-            return [(k, v) for k, v in recv.items()]
-        if name == "copy" and not args:
-            return dict(recv)
-        if name == "clear" and not args:
-            recv.clear()
-            return None
-        raise _Unsupported(f"dict method .{name}()")
-
-    def _str_method(self, recv, name, args, kwargs):
-        if name == "join" and len(args) == 1:
-            elems = list(self.iterate(args[0]))
+            st.frames.append(_Frame(g.fn.func, g.env, g.fn.func.parent))
             out = []
-            for i, x in enumerate(elems):
-                if not isinstance(x, _STRINGISH):
-                    raise _Abort("sequence item: expected str instance")
-                if i:
-                    out.append(recv)
-                out.append(x)
-            return self.cat(*out) if out else ""
-        if name == "format" and isinstance(recv, str):
+            for s, sig in self.block(g.fn.node.body, st):
+                s.frames.pop()
+                out.append((s, "raise" if sig == "raise" else None))
+            return out
+        finally:
+            self.depth -= 1
+
+    def method(self, recv, name, args, kw, st, e):
+        if isinstance(recv, _Lst):
+            return [(st, self.list_method(recv, name, args, st))]
+        if isinstance(recv, _Str):
+            return [(st, self.str_method(recv, name, args, kw, st, e))]
+        if isinstance(recv, _Fn) or isinstance(recv, _Gen):
+            return [(st, _Unk(f"method .{name}() of a function object"))]
+        self.escape(list(args) + list(kw.values()), st, f"`{src(e.func)[:40]}`")
+        return [(st, recv if isinstance(recv, _Unk) else _Unk(f"method .{name}()"))]
+
+    def list_method(self, lst, name, args, st):
+        if name == "append" and len(args) == 1:
+            lst.parts.append(("one", args[0]))
+            return None
+        if name == "extend" and len(args) == 1 and isinstance(args[0], _Lst):
+            lst.parts.extend(args[0].parts)
+            return None
+        if name == "clear" and not args:
+            lst.parts = []
+            lst.ver += 1
+            return None
+        if name == "copy" and not args:
+            return _Lst(lst.parts)
+        lst.ver += 1
+        lst.parts = [("one", _Unk(f"list after .{name}()"))]
+        st.unk.append(f"list method .{name}() is not modelled")
+        return _Unk(f"list method .{name}()")
+
+    def str_method(self, recv, name, args, kw, st, e):
+        if name == "join" and len(args) == 1 and not kw:
+            seq, rev = args[0], False
+            if isinstance(seq, _Iter) and seq.kind == "rev" and isinstance(seq.a, _Lst):
+                seq, rev = seq.a, True
+            if isinstance(seq, _Lst):
+                parts = tuple(_canon(seq.parts))
+                if all(p[0] == "seg" or (p[0] == "one" and isinstance(p[1], _Str)) for p in parts):
+                    if all(p[0] == "one" and p[1].text is not None for p in parts) and recv.text is not None:
+                        return _S(recv.text.join(p[1].text for p in parts))
+                    return _Str((("join", parts, recv, rev),))
+            return _Unk("join over a sequence that is not a list of buffered items")
+        if name == "format" and recv.text is not None and not kw:
             import string
 
-            out, auto = [], 0
             try:
-                fields = list(string.Formatter().parse(recv))
-            except ValueError as ex:
-                raise _Abort(str(ex))
+                fields = list(string.Formatter().parse(recv.text))
+            except ValueError:
+                return _Unk("format string")
+            out, auto = [], 0
             for lit, field, spec, conv in fields:
-                out.append(lit)
+                out.append(_S(lit))
                 if field is None:
                     continue
                 if field == "":
                     field, auto = str(auto), auto + 1
-                if field.isdigit():
-                    if int(field) >= len(args):
-                        raise _Abort("format index")
-                    v = args[int(field)]
-                elif field in kwargs:
-                    v = kwargs[field]
-                else:
-                    raise _Unsupported("format field with attribute / index access")
+                if not field.isdigit() or int(field) >= len(args):
+                    return _Unk("format field")
+                v = args[int(field)]
                 if spec or conv not in (None, "s"):
-                    if isinstance(v, (_Tok, _Cat, _Alt)):
-                        v = _Alt("formatted with a conversion / format spec")
-                    elif isinstance(v, (int, float, str, bool)) or v is None:
-                        v = format(repr(v) if conv == "r" else v, spec or "")
-                    else:
-                        raise _Unsupported("format of a container")
+                    v = _Str((("alt", "formatted with a conversion / format spec"),)) if isinstance(v, _Str) and v.symbolic() else _Unk("formatted value")
                 out.append(self.to_str(v))
-            return self.cat(*out)
-        plain_args = []
-        for x in args:
-            if isinstance(x, _Tok) and x.text is not None:
-                plain_args.append(x.text)
-            elif isinstance(x, (str, int, type(None))) or (isinstance(x, tuple) and all(isinstance(y, str) for y in x)):
-                plain_args.append(x)
-            else:
-                plain_args = None
-                break
-        if name not in _STR_PURE:
-            if name == "encode" and isinstance(recv, (_Tok, _Cat, _Alt)):
-                return _Alt("encoded token text")
-            raise _Unsupported(f"str method .{name}()")
-        if isinstance(recv, str):
-            if plain_args is None:
-                if name in ("startswith", "endswith", "find", "rfind", "count", "index", "rindex") and args and isinstance(args[0], (_Tok, _Cat, _Alt)):
-                    if name in ("startswith", "endswith"):
-                        return self.choose(None) if recv else False
-                    raise _Unsupported(f"position of token text inside a constant (.{name})")
-                return _Alt(f".{name}() with token text as an argument")
-            return getattr(recv, name)(*plain_args)
-        # receiver carries token text
-        if isinstance(recv, _Tok) and recv.text is not None and plain_args is not None and name in _STR_PREDICATES:
-            return getattr(recv.text, name)(*plain_args)
-        if name in _STR_PREDICATES:
-            if name == "isspace" and isinstance(recv, (_Tok,)):
-                return False  # an item of the stream is never blank
-            if name == "isspace" and isinstance(recv, _Cat):
-                return False  # contains a whole token
-            key = ("pred", recv.idx, name, tuple(plain_args)) if isinstance(recv, _Tok) and plain_args is not None and all(isinstance(x, (str, int, type(None), tuple)) for x in plain_args) else None
-            return self.choose(key)
-        if name in ("find", "rfind", "index", "rindex", "count"):
-            raise _Unsupported(f"position inside token text (.{name})")
-        if name in ("split", "rsplit", "splitlines", "partition", "rpartition"):
-            raise _Unsupported(f"token text is split (.{name})")
-        return _Alt(f".{name}() applied to token text")
+            return self.cat(out)
+        if recv.symbolic():
+            if name in _STR_PREDICATES:
+                return _Opq(f"pred:{src(e)}")
+            if name in _STR_TRANSFORMS:
+                return _Str((("alt", f".{name}() applied to the item text"),))
+            return _Unk(f"str method .{name}() on item text")
+        if any(isinstance(x, _Str) and x.symbolic() for x in args):
+            return _Opq(f"pred:{src(e)}") if name in _STR_PREDICATES else _Unk(f".{name}() with item text as an argument")
+        if recv.text is not None and (name in _STR_PREDICATES or name in _STR_TRANSFORMS - {"translate", "encode"}) and not kw:
+            plain = []
+            for x in args:
+                if isinstance(x, _Str) and x.text is not None:
+                    plain.append(x.text)
+                elif isinstance(x, _Num) and x.const() is not None:
+                    plain.append(x.const())
+                else:
+                    return _Unk(f".{name}() with non-constant arguments")
+            try:  # constant folding of a constant expression
+                r = getattr(recv.text, name)(*plain)
+            except Exception:
+                return _Unk(f"constant expression .{name}() raises")
+            return _S(r) if isinstance(r, str) else r if isinstance(r, bool) else _Unk("constant method result")
+        return _Unk(f"str method .{name}()")
 
-    def builtin(self, name, args, kwargs):
-        try:
-            return self._builtin(name, args, kwargs)
-        except (_Unsupported, _Abort):
-            raise
-        except Exception as ex:
-            raise _Abort(f"{type(ex).__name__}: {ex}")
+    def builtin(self, name, args, kw, st, e):
+        short = name[len("builtins."):] if name.startswith("builtins.") else None
+        if name.endswith("functools.partial") or name == "partial":
+            if args and isinstance(args[0], _Fn):
+                c = args[0]
+                k2 = dict(c.kw)
+                k2.update(kw)
+                return [(st, _Fn(c.func, c.node, tuple(c.pos) + tuple(args[1:]), k2, c.recv))]
+            return [(st, _Unk("functools.partial of a callable that is not a function of the package"))]
+        if short is None:
+            self.escape(list(args) + list(kw.values()), st, f"`{name}`")
+            return [(st, _Unk(f"call of {name}"))]
+        v = self._builtin(short, args, kw, st, e)
+        return [(st, v)]
 
-    def _builtin(self, name, args, kwargs):
-        if name in ("ext:functools.partial", "ext:functools.partial.partial") or name.endswith("functools.partial"):
-            if not args or not isinstance(args[0], _Closure):
-                raise _Unsupported("functools.partial of a non-package callable")
-            c = args[0]
-            bound = dict(c.bound)
-            bound[None] = tuple(bound.get(None, ())) + tuple(args[1:])
-            bound.update(kwargs)
-            return _Closure(c.node, c.func, c.outer, bound, c.recv)
-        if name.startswith(("ext:", "cls:")):
-            raise _Unsupported(f"call of {name[4:]}")
-        if kwargs and name not in ("enumerate", "print", "next", "min", "max", "sorted", "zip", "sum"):
-            raise _Unsupported(f"keyword arguments in {name}()")
-        if name == "len" and len(args) == 1:
-            v = args[0]
-            if isinstance(v, (list, tuple, dict, set, frozenset, str, range)):
-                return len(v)
-            if isinstance(v, _Tok) and v.text is not None:
-                return len(v.text)
-            if isinstance(v, (_Tok, _Cat, _Alt)):
-                raise _Unsupported("length of token text")
-            raise _Abort("object has no len()")
-        if name == "range":
-            if not all(isinstance(x, int) for x in args):
-                raise _Abort("range() arguments must be integers")
-            r = range(*args)
-            if len(r) > 10000:
-                raise _Unsupported("very long range")
-            return r
-        if name == "enumerate" and 1 <= len(args) <= 2:
-            start = kwargs.get("start", args[1] if len(args) == 2 else 0)
-            if not isinstance(start, int):
-                raise _Abort("enumerate start")
-            return _It(_lazy_enumerate(self.iterate(args[0]), start))
-        if name == "zip":
-            if kwargs:
-                raise _Unsupported("zip(strict=)")
-            return _It(zip(*[self.iterate(a) for a in args]))
-        if name == "reversed" and len(args) == 1 and isinstance(args[0], (list, tuple, range, str)):
-            return _It(reversed(args[0]))
-        if name in ("list", "tuple") and len(args) <= 1:
-            vals = list(self.iterate(args[0])) if args else []
-            return vals if name == "list" else tuple(vals)
-        if name in ("set", "frozenset") and len(args) <= 1:
-            vals = list(self.iterate(args[0])) if args else []
-            if any(isinstance(v, (_Cat, _Alt, list, dict)) for v in vals):
-                raise _Unsupported("set of derived values")
-            out = []
-            for v in vals:
-                if not any(self.eq(v, o) for o in out):
-                    out.append(v)
-            return set(out) if name == "set" else frozenset(out)
-        if name == "dict" and not args:
-            return dict(kwargs)
-        if name == "str" and len(args) <= 1:
-            return self.to_str(args[0]) if args else ""
-        if name == "repr" and len(args) == 1:
-            return _Alt("repr() of token text") if isinstance(args[0], (_Tok, _Cat, _Alt)) else repr(args[0]) if isinstance(args[0], (int, str, float, bool, type(None))) else _Alt("repr()")
-        if name == "int" and len(args) == 1 and isinstance(args[0], (int, str, float, bool)):
-            return int(args[0])
-        if name == "float" and len(args) == 1 and isinstance(args[0], (int, str, float, bool)):
-            return float(args[0])
-        if name == "bool" and len(args) <= 1:
-            return self.truth(args[0]) if args else False
-        if name == "abs" and len(args) == 1 and isinstance(args[0], (int, float)):
-            return abs(args[0])
-        if name == "divmod" and len(args) == 2 and all(isinstance(x, int) for x in args):
-            return divmod(*args)
-        if name in ("min", "max"):
-            vals = list(self.iterate(args[0])) if len(args) == 1 else list(args)
-            if "key" in kwargs or not all(isinstance(v, (int, float)) for v in vals):
-                raise _Unsupported(f"{name}() of non-numbers")
-            if not vals:
-                if "default" in kwargs:
-                    return kwargs["default"]
-                raise _Abort(f"{name}() of an empty sequence")
-            return min(vals) if name == "min" else max(vals)
-        if name == "sum" and 1 <= len(args) <= 2:
-            vals = list(self.iterate(args[0]))
-            if not all(isinstance(v, (int, float)) for v in vals):
-                raise _Unsupported("sum() of non-numbers")
-            return sum(vals, *(args[1:] if len(args) == 2 and isinstance(args[1], (int, float)) else ()))
-        if name in ("any", "all") and len(args) == 1:
-            ts = [self.truth(v) for v in self.iterate(args[0])]
-            return any(ts) if name == "any" else all(ts)
-        if name == "sorted":
-            raise _Unsupported("sorted()")
-        if name == "iter" and len(args) == 1:
-            return args[0] if isinstance(args[0], _It) else _It(self.iterate(args[0]))
-        if name == "next" and 1 <= len(args) <= 2:
-            if not isinstance(args[0], _It):
-                raise _Abort("next() of a non-iterator")
-            for x in args[0].it:
-                return x
-            if len(args) == 2:
-                return args[1]
-            raise _Abort("StopIteration")
+    def _builtin(self, name, args, kw, st, e):
         if name == "print":
             return None
         if name == "isinstance" and len(args) == 2:
-            return self._isinstance(args[0], args[1])
-        if name in ("str", "int", "bool", "list", "tuple", "dict", "set", "bytes", "float", "object", "type", "frozenset"):
-            raise _Unsupported(f"{name}() with these arguments")
-        raise _Unsupported(f"builtin {name}()")
+            if isinstance(args[0], _Str) and isinstance(args[1], _Ext) and args[1].name == "builtins.str":
+                return True
+            return _Opq(f"isinstance:{src(e)}")
+        if kw and name != "enumerate":
+            return _Unk(f"keyword arguments in {name}()")
+        if name == "len" and len(args) == 1:
+            v = args[0]
+            if isinstance(v, _Lst):
+                n = _length(_canon(v.parts))
+                return _Num(n) if n is not None else _Unk("length of a list built by a loop")
+            if isinstance(v, _Str) and v.text is not None:
+                return _Num(len(v.text))
+            if isinstance(v, (tuple, frozenset)):
+                return _Num(len(v))
+            return _Unk("len() of this value")
+        if name == "range" and 1 <= len(args) <= 2 and all(isinstance(a, _Num) for a in args):
+            lo, hi = (_k(0), args[0].p) if len(args) == 1 else (args[0].p, args[1].p)
+            return _Iter("range", lo, hi)
+        if name == "enumerate" and 1 <= len(args) <= 2:
+            start = kw.get("start", args[1] if len(args) == 2 else _Num(0))
+            if isinstance(start, _Num) and isinstance(args[0], (_Lst, _Iter)):
+                return _Iter("enum", args[0], start.p)
+            return _Unk("enumerate of this value")
+        if name == "reversed" and len(args) == 1 and isinstance(args[0], _Lst):
+            return _Iter("rev", args[0])
+        if name in ("iter", "list", "tuple") and len(args) == 1 and isinstance(args[0], _Stream):
+            return args[0]
+        if name == "list" and len(args) <= 1:
+            if not args:
+                return _Lst()
+            if isinstance(args[0], _Lst):
+                return _Lst(args[0].parts)
+            if isinstance(args[0], tuple):
+                return _Lst([("one", v) for v in args[0]])
+            return _Unk("list() of this value")
+        if name in ("frozenset", "set", "tuple") and len(args) == 1:
+            c = self.container(args[0])
+            if c is not None:
+                items = [_S(ch) for ch in c[1]] if c[0] == "str" else [_S(t) for t in c[1]]
+                return tuple(items) if name == "tuple" else frozenset(items)
+            return _Unk(f"{name}() of a non-constant")
+        if name in ("frozenset", "set", "tuple") and not args:
+            return () if name == "tuple" else frozenset()
+        if name == "str" and len(args) <= 1:
+            return self.to_str(args[0]) if args else _S("")
+        if name == "repr" and len(args) == 1 and isinstance(args[0], _Str) and args[0].symbolic():
+            return _Str((("alt", "repr() of the item text"),))
+        if name == "bool" and len(args) == 1:
+            return _Opq(f"bool:{src(e)}") if not isinstance(args[0], bool) else args[0]
+        if name in ("int", "abs", "min", "max") and args and all(isinstance(a, _Num) and a.const() is not None for a in args):
+            vals = [a.const() for a in args]
+            return _Num({"int": lambda: vals[0], "abs": lambda: abs(vals[0]), "min": lambda: min(vals), "max": lambda: max(vals)}[name]())
+        if name in ("min", "max", "abs", "int") and args and all(isinstance(a, _Num) for a in args):
+            return _Num(SymPoly.atom(f"u{next(self.fresh)}"))  # some integer: nothing is known (or provable) about it
+        self.escape(args, st, f"`{name}()`")
+        return _Unk(f"builtin {name}()")
 
-    def _isinstance(self, v, t):
-        if isinstance(t, tuple):
-            return any(self._isinstance(v, x) for x in t)
-        if not isinstance(t, _Builtin):
-            raise _Unsupported("isinstance against a computed type")
-        py = {"str": (str, _Tok, _Cat, _Alt), "int": (int,), "bool": (bool,), "list": (list,), "tuple": (tuple,), "dict": (dict,), "set": (set,), "frozenset": (frozenset,),
-              "float": (float,), "bytes": (bytes,), "object": (object,)}
-        if t.name in py:
-            return isinstance(v, py[t.name])
-        if isinstance(v, _Tok):
-            # lark yields filtered keywords as plain str and kept terminals as Token (a str subclass)
-            if v.text is not None:
-                return False
-            return self.choose(("isinst", v.idx, t.name))
-        if t.name.startswith(("ext:", "cls:")):
-            return False
-        raise _Unsupported(f"isinstance against {t.name}")
-
-
-def _lazy_enumerate(it, start):
-    i = start
-    for x in it:
-        yield i, x
-        i += 1
-
-
-def _as_load(t):
-    import copy
-
-    t = copy.copy(t)
-    t.ctx = ast.Load()
-    return t
-
-
-def _scope_func(scope):
-    return scope.func
-
-
-# ---------------------------------------------------------------------------------------------- token stream families
-def _sentences(max_tokens):
-    """Family A - every token skeleton of the profile language with at most max_tokens items: a statement is 1-3 words
-    and `;`, a block is a keyword, an optional variant word, `{`, statements/blocks, `}`; a profile is a non-empty
-    sequence of them."""
-    stm, seq = {}, {0: [()]}
-
-    def stmts(n):
-        if n not in stm:
-            out = []
-            if 2 <= n <= 4:
-                out.append(("w",) * (n - 1) + (";",))
-            for h in (1, 2):
-                if n - h - 2 >= 0:
-                    for body in seqs(n - h - 2):
-                        out.append(("w",) * h + ("{",) + body + ("}",))
-            stm[n] = out
-        return stm[n]
-
-    def seqs(n):
-        if n not in seq:
-            out = []
-            for k in range(2, n + 1):
-                for s in stmts(k):
-                    for rest in seqs(n - k):
-                        out.append(s + rest)
-            seq[n] = out
-        return seq[n]
-
-    out = []
-    for n in range(2, max_tokens + 1):
-        out.extend(seqs(n))
-    return out
-
-
-def _short_streams(max_tokens):
-    """Family B - every stream over {word, `{`, `}`, `;`} with at most max_tokens items that ends in a statement
-    terminator (not necessarily a sentence: the post-processor is handed a flat item stream)."""
-    import itertools
-
-    out = []
-    for n in range(1, max_tokens + 1):
-        for head in itertools.product(("w", "{", "}", ";"), repeat=n - 1):
-            for last in (";", "}"):
-                out.append(tuple(head) + (last,))
-    return out
-
-
-_DEEP = [
-    # http-get "v" { set uri "a"; client { header "a" "b"; metadata { base64; prepend "x"; header "Cookie"; } } server { output { print; } } } set sleeptime "1";
-    "w w { w w w ; w { w w w ; w { w ; w w ; w w ; } } w { w { w ; } } } w w w ;",
-    # stage { set x "y"; transform-x86 { strrep "a" "b"; } beacon_gate { All; } } post-ex { } process-inject { execute { CreateThread "x"; } }
-    "w { w w w ; w { w w w ; } w { w ; } } w { } w { w { w w ; } }",
-    "w { w { w { w { w ; } } } } w ;",
-]
-
-
-def _mk_stream(shape):
-    return [_Tok(i, None if s == "w" else s) for i, s in enumerate(shape)]
-
-
-def _show(shape):
-    return " ".join(f"w{i}" if s == "w" else s for i, s in enumerate(shape))
-
-
-def _audit(toks, out, spaces_between_items):
-    """-> (taint problem | None, missing item indices).
-
-    The emitted text is lexed as far as that is possible without knowing the words: a token piece is itself, constant
-    text is whitespace and single-character delimiters (any other constant character is foreign text).  The output
-    preserves the stream iff this lexeme sequence equals the item sequence: a word position must hold that very item, a
-    delimiter position a delimiter with the same text (a constant `;` and the item `;` are the same text), and two words
-    must be separated by whitespace or an item boundary (lark inserts a space there)."""
-    lex = []  # (token | delimiter text, separated from the previous lexeme)
-    sep = True
-    prev_nonempty = False
-    for v in out:
-        # lark puts a space between two consecutive non-empty items that would otherwise fuse into one word
-        nonempty = not (isinstance(v, str) and v == "")
-        if spaces_between_items and prev_nonempty and nonempty:
-            sep = True
-        prev_nonempty = nonempty
-        if isinstance(v, _Alt):
-            return f"yields {v!r}: token text that went through an operation that can change it, not the stream item itself", []
-        if not isinstance(v, _STRINGISH):
-            return f"yields a {type(v).__name__} ({v!r}), not a stream item or whitespace", []
-        for p in _parts(v):
-            if isinstance(p, _Tok):
-                lex.append((p, sep))
-                sep = False
-                continue
-            for ch in p:
-                if ch.isspace():
-                    sep = True
-                elif ch in _DELIMS:
-                    lex.append((ch, sep))
-                    sep = False
+    # ------------------------------------------------------------------------------------------------ statements
+    def bind(self, target, v, st):
+        env = st.frames[-1].env
+        if isinstance(target, ast.Name):
+            env[target.id] = v
+        elif isinstance(target, (ast.Tuple, ast.List)) and isinstance(v, tuple) and len(v) == len(target.elts) and not any(isinstance(t, ast.Starred) for t in target.elts):
+            for t, x in zip(target.elts, v):
+                self.bind(t, x, st)
+        elif isinstance(target, (ast.Tuple, ast.List)):
+            for n in ast.walk(target):
+                if isinstance(n, ast.Name):
+                    env[n.id] = _Unk("unpacked value")
+        elif isinstance(target, ast.Subscript):
+            for s, base in self.ev(target.value, st)[:1]:
+                if isinstance(base, _Lst):
+                    if isinstance(target.slice, ast.Slice) and target.slice.lower is None and target.slice.upper is None and isinstance(v, _Lst):
+                        base.parts = list(v.parts)
+                        base.ver += 1
+                    else:
+                        base.ver += 1
+                        base.parts = [("one", _Unk("list after an item assignment"))]
+                        st.unk.append("item assignment into a list is not modelled")
                 else:
-                    return f"yields the text {p!r}, which is neither a stream item nor whitespace", []
-
-    def same(l, t):
-        if isinstance(l, _Tok) and l.idx == t.idx:
-            return True
-        lt = l.text if isinstance(l, _Tok) else l
-        return lt is not None and t.text is not None and lt == t.text
-
-    j = 0
-    missing = []
-    prev_word = False
-    for l, separated in lex:
-        k = next((k for k in range(j, len(toks)) if same(l, toks[k])), None)
-        if k is None:
-            if isinstance(l, _Tok) and l.text is None:
-                return f"emits item {l!r} (position {l.idx}) again / out of stream order", []
-            return f"emits a `{l if isinstance(l, str) else l.text}` that is not at this place in the stream (extra, repeated or reordered delimiter)", []
-        missing.extend(range(j, k))
-        j = k + 1
-        is_word = isinstance(l, _Tok) and l.text is None
-        if is_word and prev_word and not separated:
-            return f"emits item {l!r} glued to the previous word without whitespace between them", []
-        prev_word = is_word
-    missing.extend(range(j, len(toks)))
-    return None, missing
-
-
-_MAX_ALTERNATIVES = 40  # per stream
-_ALTERNATIVES_BUDGET = 1500  # over all streams (the smallest streams come first)
-
-
-def _run_postproc(ctx, pp: _Closure, shape, spaces, budget):
-    """Symbolic runs of the post-processor on one stream shape -> (list of (taint, missing, aborted, forked), truncated).
-
-    The first run answers every question about the text of a symbolic word with "no"; the alternatives (one more "yes"
-    at a time, fewest first) are explored up to _MAX_ALTERNATIVES runs per stream and `budget[0]` runs overall."""
-    results = []
-    pending = [()]
-    seen = {()}
-    truncated = False
-    while pending:
-        if len(results) >= _MAX_ALTERNATIVES or (results and budget[0] <= 0):
-            truncated = True
-            break
-        if results:
-            budget[0] -= 1
-        pending.sort(key=lambda o: (sum(o), len(o)))
-        oracle = pending.pop(0)
-        sym = _Sym(ctx, oracle)
-        toks = _mk_stream(shape)
-        aborted = None
-        out = []
-        try:
-            res = sym.invoke(pp, [_It(toks)], {})
-            if res is None:
-                raise _Abort("the post-processor returns None (lark iterates over its result)")
-            for x in sym.iterate(res):
-                out.append(x)
-        except _Abort as ex:
-            aborted = str(ex)
-        except (_Unsupported, RecursionError):
-            raise
-        except Exception as ex:  # a gap in the executor's model of Python must never look like a verdict
-            raise _Unsupported(f"executor error {type(ex).__name__}: {ex}")
-        for i in range(len(oracle), len(sym.trace)):
-            alt = tuple(sym.trace[:i]) + (True,)
-            if not sym.trace[i] and alt not in seen:
-                seen.add(alt)
-                pending.append(alt)
-        if aborted is not None:
-            results.append((None, [], aborted, bool(sym.trace)))
+                    st.unk.append("item assignment is not modelled")
         else:
-            taint, missing = _audit(toks, out, spaces)
-            results.append((taint, missing, None, bool(sym.trace)))
-    return results, truncated
+            st.unk.append(f"assignment to `{src(target)[:40]}` is not modelled")
+
+    def block(self, body, st):
+        """-> [(state, signal)], signal None | "continue" | "break" | "raise" | ("return", value)."""
+        live, done = [st], []
+        for node in body:
+            nxt = []
+            for s in live:
+                for s2, sig in self.stmt(node, s):
+                    (nxt if sig is None else done).append((s2, sig))
+            live = [s for s, _ in nxt]
+            if not live:
+                break
+        return [(s, None) for s in live] + done
+
+    def stmt(self, node, st):
+        if isinstance(node, ast.Expr):
+            v = node.value
+            if isinstance(v, ast.Yield):
+                if v.value is None:
+                    st.out.parts.append(("one", None))
+                    return [(st, None)]
+                out = []
+                for s, x in self.ev(v.value, st):
+                    s.out.parts.append(("one", x))
+                    out.append((s, None))
+                return out
+            if isinstance(v, ast.YieldFrom):
+                out = []
+                for s, x in self.ev(v.value, st):
+                    if isinstance(x, _Lst):
+                        s.out.parts.extend(x.parts)
+                        out.append((s, None))
+                    elif isinstance(x, _Gen):
+                        out.extend(self.run_gen(x, s))
+                    elif isinstance(x, tuple):
+                        s.out.parts.extend(("one", y) for y in x)
+                        out.append((s, None))
+                    else:
+                        s.unk.append(f"`yield from {src(v.value)[:50]}`: the iterable is not modelled")
+                        out.append((s, None))
+                return out
+            return [(s, None) for s, _v in self.ev(v, st)]
+        if isinstance(node, ast.Assign):
+            if isinstance(node.value, (ast.Yield, ast.YieldFrom)):
+                raise _Undecided("the value of a yield expression is used")
+            out = []
+            for s, v in self.ev(node.value, st):
+                for t in node.targets:
+                    self.bind(t, v, s)
+                out.append((s, None))
+            return out
+        if isinstance(node, ast.AnnAssign):
+            if node.value is None:
+                return [(st, None)]
+            out = []
+            for s, v in self.ev(node.value, st):
+                self.bind(node.target, v, s)
+                out.append((s, None))
+            return out
+        if isinstance(node, ast.AugAssign):
+            load = copy.copy(node.target)
+            load.ctx = ast.Load()
+            out = []
+            for s, (cur, rhs) in self.evs([load, node.value], st):
+                if isinstance(cur, _Lst) and isinstance(node.op, ast.Add) and isinstance(rhs, _Lst):
+                    cur.parts.extend(rhs.parts)
+                else:
+                    self.bind(node.target, self.binop(node.op, cur, rhs, s), s)
+                out.append((s, None))
+            return out
+        if isinstance(node, ast.If):
+            t, f = self.branch(node.test, st)
+            out = []
+            for s in t:
+                out.extend(self.block(node.body, s))
+            for s in f:
+                out.extend(self.block(node.orelse, s))
+            return out
+        if isinstance(node, ast.For):
+            return self.for_stmt(node, st)
+        if isinstance(node, ast.While):
+            return self.while_stmt(node, st)
+        if isinstance(node, (ast.Pass, ast.Import, ast.ImportFrom)):
+            return [(st, None)]
+        if isinstance(node, ast.Break):
+            return [(st, "break")]
+        if isinstance(node, ast.Continue):
+            return [(st, "continue")]
+        if isinstance(node, ast.Return):
+            if node.value is None:
+                return [(st, ("return", None))]
+            return [(s, ("return", v)) for s, v in self.ev(node.value, st)]
+        if isinstance(node, ast.Assert):
+            t, f = self.branch(node.test, st)
+            return [(s, None) for s in t] + [(s, "raise") for s in f]
+        if isinstance(node, ast.Raise):
+            return [(st, "raise")]
+        if isinstance(node, ast.FunctionDef):
+            fr = st.frames[-1]
+            f = fr.func
+            q = f"{f.qualname}.{node.name}"
+            fn = f.module.funcs.get(q)
+            if fn is None or fn.node is not node:
+                fn = Func(f.module, q, node, f.cls, f)
+            fr.env[node.name] = _Fn(fn, node)
+            return [(st, None)]
+        if isinstance(node, ast.Delete):
+            for t in node.targets:
+                done = False
+                if isinstance(t, ast.Subscript) and isinstance(t.slice, ast.Slice) and t.slice.lower is None and t.slice.upper is None and t.slice.step is None:
+                    res = self.ev(t.value, st)
+                    if len(res) == 1 and isinstance(res[0][1], _Lst):
+                        res[0][1].parts = []
+                        res[0][1].ver += 1
+                        done = True
+                if not done:
+                    raise _Undecided(f"`del {src(t)[:40]}`")
+            return [(st, None)]
+        raise _Undecided(f"statement `{type(node).__name__}` in the post-processor")
+
+    # ------------------------------------------------------------------------------------------------ loops
+    @staticmethod
+    def assigned_names(body):
+        out = set()
+        for st in body:
+            for n in ast.walk(st):
+                if isinstance(n, ast.Name) and isinstance(n.ctx, (ast.Store, ast.Del)):
+                    out.add(n.id)
+        return out
+
+    def iterable(self, v, st):
+        """-> (count, element(j)) for the things an inner loop can range over, else None."""
+        if isinstance(v, _Lst):
+            parts = _canon(v.parts)
+            if not parts:
+                return _k(0), (lambda j: _Unk("element of an empty list")), None
+            if len(parts) == 1 and parts[0][0] == "seg":
+                _t, lo, hi, note = parts[0]
+                return hi - lo, (lambda j, lo=lo: _T(lo + j)), note
+            return None
+        if isinstance(v, _Iter) and v.kind == "enum":
+            inner = self.iterable(v.a, st)
+            if inner is None:
+                return None
+            cnt, el, note = inner
+            return cnt, (lambda j, el=el, start=v.b: (_Num(j + start), el(j))), note
+        if isinstance(v, _Iter) and v.kind == "rev" and isinstance(v.a, _Lst):
+            parts = _canon(v.a.parts)
+            if len(parts) == 1 and parts[0][0] == "seg" and not parts[0][3]:
+                _t, lo, hi, _note = parts[0]
+                return hi - lo, (lambda j, hi=hi: _T(hi - _k(1) - j)), None
+            return None
+        if isinstance(v, _Iter) and v.kind == "range":
+            cnt = v.b - v.a
+            if not _ge0(st, cnt):
+                # range(a, b) with b < a possible: max(b - a, 0) steps - an unknown non-negative count (nothing is provable about it)
+                cnt = SymPoly.atom(f"m{next(self.fresh)}")
+            return cnt, (lambda j, lo=v.a: _Num(lo + j)), None
+        if isinstance(v, tuple) and not v:
+            return _k(0), (lambda j: _Unk("element of an empty tuple")), None
+        return None
+
+    def havoc(self, names, st, why):
+        env = st.frames[-1].env
+        for n in names:
+            if n in env and not isinstance(env[n], _Lst):
+                env[n] = _Unk(why)
+
+    def for_stmt(self, node, st):
+        out = []
+        for s, itv in self.ev(node.iter, st):
+            if isinstance(itv, _Stream):
+                out.extend(self.main_loop(node.target, node.body, node.orelse, s, node))
+                continue
+            desc = self.iterable(itv, s)
+            if desc is None:
+                s.unk.append(f"the loop over `{src(node.iter)[:50]}` ranges over something the analysis does not model")
+                self.escape([v for v in s.frames[-1].env.values()], s, "an unmodelled loop")
+                self.havoc(self.assigned_names([node]), s, "assigned in an unmodelled loop")
+                out.append((s, None))
+                continue
+            out.extend(self.summarise(node, s, desc))
+        return out
+
+    def summarise(self, node, st, desc):
+        """An inner loop, analysed once: position j symbolic, 0 <= j < count.  Every sink (the output, a list) gets one
+        ("rep", ...) part describing what one iteration appends on each path of the body."""
+        cnt, elem, note = desc
+        if cnt == _k(0):
+            return self.block(node.orelse, st)
+        self.stats["inner_loops"] += 1
+        atom = f"j{next(self.fresh)}"
+        names = self.assigned_names(node.body) | self.assigned_names([ast.Expr(value=node.target)])
+        env0 = st.frames[-1].env
+        if any(isinstance(env0.get(n), _Lst) for n in names):
+            st.unk.append(f"a list variable is rebound inside the loop over `{src(node.iter)[:50]}`")
+        body = self.fork(st)
+        body.loops.append((atom, cnt))
+        self.havoc(self.assigned_names(node.body), body, "value carried around an inner loop")
+        marks = {l.uid: (len(l.parts), l.ver) for l in body.lists()}
+        self.bind(node.target, elem(SymPoly.atom(atom)), body)
+        alts = []
+        for s, sig in self.block(node.body, body):
+            if sig not in (None, "continue"):
+                st.unk.append(f"the loop over `{src(node.iter)[:50]}` can be left early")
+            st.unk.extend(u for u in s.unk if u not in st.unk)
+            st.viol.extend(v for v in s.viol if v not in st.viol)
+            deltas = {}
+            for l in s.lists():
+                if l.uid in marks:
+                    m, ver = marks[l.uid]
+                    if l.ver != ver:
+                        st.unk.append("a list is reset or rewritten inside an inner loop")
+                    elif len(l.parts) > m:
+                        deltas[l.uid] = tuple(l.parts[m:])
+            alts.append(_RAlt(dict(s.lex), list(s.ge0), deltas))
+        rep = _Rep(atom, cnt, alts, src(node.iter)[:60] + (f" ({note})" if note else ""))
+        touched = {u for a in alts for u in a.deltas}
+        for l in st.lists():
+            if l.uid in touched:
+                l.parts.append(("rep", rep, l.uid))
+        self.havoc(names, st, "assigned in an inner loop")
+        for n in names:
+            st.frames[-1].env.setdefault(n, _Unk("assigned in an inner loop"))
+        return self.block(node.orelse, st)
+
+    def while_stmt(self, node, st):
+        """`while True: x = next(it, D); if x is D: break; ...` is the loop over the stream written by hand."""
+        b = node.body
+        if (isinstance(node.test, ast.Constant) and node.test.value is True and len(b) >= 2 and isinstance(b[0], ast.Assign) and len(b[0].targets) == 1
+                and isinstance(b[0].targets[0], ast.Name) and isinstance(b[0].value, ast.Call) and dotted(b[0].value.func) == "next" and len(b[0].value.args) == 2
+                and not b[0].value.keywords and isinstance(b[1], ast.If) and not b[1].orelse and len(b[1].body) == 1 and isinstance(b[1].body[0], (ast.Break, ast.Return))
+                and not (isinstance(b[1].body[0], ast.Return) and b[1].body[0].value is not None)):
+            x = b[0].targets[0].id
+            dflt = b[0].value.args[1]
+            cps = compare_parts(b[1].test)
+            exhausted = any(isinstance(l, ast.Name) and l.id == x and isinstance(op, (ast.Is, ast.Eq)) and src(r) == src(dflt) for l, op, r in cps)
+            res = self.evs([b[0].value.args[0], dflt], st)
+            if exhausted and len(res) == 1 and isinstance(res[0][1][0], _Stream) and (res[0][1][1] is None or isinstance(res[0][1][1], _Opq)):
+                # the default is not a stream item (None / a sentinel object): the test holds exactly when the stream is exhausted
+                return self.main_loop(b[0].targets[0], b[2:], node.orelse if isinstance(b[1].body[0], ast.Return) else [], res[0][0], node, after_break=isinstance(b[1].body[0], ast.Break))
+        raise _Undecided("a `while` loop in the post-processor that is not the recognised `next(it, default)` form")
+
+    def main_loop(self, target, body, orelse, st, node, after_break=False):
+        """ONE arbitrary iteration of the loop that draws the items (see the head of this section)."""
+        if self.in_main or len(st.loops) or not isinstance(target, ast.Name):
+            raise _Undecided("the loop over the item stream is nested in another loop / unpacks its items")
+        self.n_main += 1
+        self.check_blank_only(st, "before the first item is read")
+        fr = st.frames[-1]
+        env = fr.env
+        assigned = self.assigned_names(body)
+        mutated = set()
+        for b in body:
+            for n in ast.walk(b):
+                if isinstance(n, ast.Call) and isinstance(n.func, ast.Attribute) and isinstance(n.func.value, ast.Name):
+                    mutated.add(n.func.value.id)
+                if isinstance(n, ast.Subscript) and isinstance(n.ctx, (ast.Store, ast.Del)) and isinstance(n.value, ast.Name):
+                    mutated.add(n.value.id)
+        buffers = [n for n in sorted(assigned | mutated) if isinstance(env.get(n), _Lst)]
+        if len({env[n].uid for n in buffers}) != 1:
+            raise _Undecided(f"the loop over the item stream carries {len(buffers)} lists from one iteration to the next (expected: one line buffer)")
+        bname = buffers[0]
+        if _canon(env[bname].parts):
+            raise _Undecided("the line buffer is not empty before the first item")
+        base = self.fork(st)  # the state after the loop is derived from the state before it
+        carried = {}
+        for n in sorted(assigned):
+            v = env.get(n)
+            if n == bname or v is None or isinstance(v, _Fn):
+                continue
+            carried[n] = _Num(SymPoly.atom(f"v_{n}")) if isinstance(v, _Num) else _Opq(f"carried:{n}")
+        env.update(carried)
+        # induction hypothesis: the buffer holds W[0:n-1]; the item drawn is W[n-1]
+        env[bname].parts = [("seg", _k(0), _N - _k(1), None)]
+        idx = _N - _k(1)
+        env[target.id] = _T(idx)
+        st.lex[idx] = self.lx.all
+        st.out.parts = []
+        depth = len(st.frames) - 1
+        self.in_main = True
+        try:
+            results = self.block(body, st)
+        finally:
+            self.in_main = False
+        for s, sig in results:
+            self.stats["iteration_paths"] += 1
+            for kind, text in s.viol:
+                self.note(kind, text)
+            if sig == "raise":
+                self.note("unk", "a path through the loop over the items raises an exception; whether it can be taken is not decided")
+                continue
+            if sig not in (None, "continue"):
+                self.note("unk", "the loop over the items can be left before the stream is exhausted")
+                continue
+            if s.unk:
+                for u in s.unk:
+                    self.note("unk", u)
+                continue
+            self.check_iteration(s, s.frames[depth].env.get(bname), s.frames[depth].env, carried, idx)
+        # after the loop: the buffer is empty (obligation "flush on terminators"), the other carried values are unknown
+        benv = base.frames[-1].env
+        benv.update(carried)
+        benv[bname] = _Lst()
+        benv[target.id] = _Unk("the loop variable after the loop")
+        base.out.parts = []
+        return self.block(orelse, base) if not after_break else [(base, None)]
+
+    # ------------------------------------------------------------------------------------------------ the inductive step
+    def check_blank_only(self, st, where):
+        """Outside the loop over the items nothing but whitespace may be yielded."""
+        for kind, text in st.viol:
+            self.note(kind, text)
+        if st.unk:
+            for u in st.unk:
+                self.note("unk", u)
+            return
+        cov = _Cover(self, st, _k(0))
+        cov.run(st.out.parts)
+        for kind, text in cov.problems:
+            self.note(kind, text + f" ({where})")
+        if cov.ntok and not cov.problems:
+            self.note("taint", f"yields items {where}: outside the loop over the stream there is no item to yield")
+
+    def check_iteration(self, s, buf, env, carried, idx):
+        """tokens(yielded on this path) ++ buffer at the end  ==  W = buffer at the head ++ [item]."""
+        for n, v0 in carried.items():
+            if isinstance(v0, _Num) and not isinstance(env.get(n), _Num):
+                self.note("unk", f"a counter of the post-processor does not stay an integer on every path")
+                return
+        if not isinstance(buf, _Lst):
+            self.note("unk", "the line buffer is rebound to something that is not a list")
+            return
+        cov = _Cover(self, s, _k(0))
+        cov.run(s.out.parts)
+        for kind, text in cov.problems:
+            self.note(kind, text)
+        if any(k in ("unk", "taint") for k, _t in cov.problems):
+            return  # what was yielded could not be read as items of W: the position reached says nothing
+        end = cov.cursor
+        parts = _canon(buf.parts)
+        lexemes = s.lex.get(idx, self.lx.all)
+        if not parts:
+            self.stats["flush_paths"] += 1
+            self.flush_lex |= set(lexemes)
+            sg = _sign_for_long_lines(_N - end)
+            if sg == "zero":
+                cov.line_end()
+                for kind, text in cov.problems:
+                    self.note(kind, text)
+                return
+            if sg in ("pos", "pos-long"):
+                which = "the last item(s) of the line" if sg == "pos" else "items of lines longer than a constant"
+                self.note("flush", f"a path that resets the buffer has yielded the buffered items only up to position {end!r} of {_N!r}: {which} are dropped{cov.hint()}")
+            elif sg in ("neg", "neg-long"):
+                self.note("taint", f"a path that resets the buffer yields more items than the line holds{cov.hint()}")
+            else:
+                self.note("unk", f"how many items a flushing path has yielded ({end!r}) cannot be compared with the line length")
+            return
+        if len(parts) == 1 and parts[0][0] == "seg" and not parts[0][3]:
+            _t, lo, hi, _note = parts[0]
+            up = _sign_for_long_lines(_N - hi)
+            low = _sign_for_long_lines(lo - end)
+            if up == "zero" and low == "zero":
+                self.nonflush_lex |= set(lexemes)  # a path that keeps (part of) the line buffered: (iv) looks at the items it is taken for
+                return
+            if up in ("pos", "pos-long"):
+                self.note("flush", "on a path through the loop the item drawn from the stream is not in the buffer afterwards and has not been yielded: it is dropped")
+            elif low in ("pos", "pos-long"):
+                self.note("flush", f"on a path through the loop the buffer is cut down to its last items although the earlier ones (from position {end!r}) have not been yielded: they are dropped")
+            elif low in ("neg", "neg-long"):
+                self.note("taint", "items that have been yielded stay in the line buffer (the buffer is not reset after the line is written): they are yielded again with the next line")
+            else:
+                self.note("unk", "the content of the buffer at the end of an iteration cannot be compared with the items drawn")
+            return
+        for p in parts:
+            if p[0] == "one" and isinstance(p[1], _Str) and any(q[0] == "alt" for q in p[1].parts):
+                self.note("taint", f"the item is not buffered unchanged: {[q[1] for q in p[1].parts if q[0] == 'alt'][0]}")
+                return
+        self.note("unk", "the line buffer does not hold a run of unchanged stream items at the end of an iteration")
+
+
+    # ------------------------------------------------------------------------------------------------ entry
+    def analyse(self, pp: _Fn):
+        st = _State()
+        try:
+            for s, v in self.call_fn(pp, [_Stream()], {}, st):
+                if not isinstance(v, _Gen):
+                    self.note("unk", "the post-processor is not (a call of) a generator function of the package" + (f": {v.why}" if isinstance(v, _Unk) else ""))
+                    continue
+                for s2, sig in self.run_gen(v, s):
+                    if sig == "raise":
+                        self.note("unk", "a path through the post-processor raises an exception; whether it can be taken is not decided")
+                        continue
+                    self.check_blank_only(s2, "after the stream is exhausted")
+            if not self.n_main and not self.unk:
+                self.note("unk", "no loop that draws the items from the stream handed to the post-processor was located")
+        except _Undecided as ex:
+            self.note("unk", str(ex))
+        except RecursionError:
+            self.note("unk", "the post-processor is too deeply nested for the analysis")
+        except Exception as ex:  # a gap in the analysis' model of Python must never look like a verdict
+            self.note("unk", f"the value flow stopped on a construct it does not model ({type(ex).__name__}: {ex})")
+        # (iv) nothing stays in the buffer when the stream ends: the last item of a sentence must take a flushing path
+        if self.stats["iteration_paths"]:
+            last = self.lx.last_lexemes()
+            bad = sorted(self.nonflush_lex & last)
+            if bad:
+                shown = ", ".join(f"`{b}`" for b in bad[:4])
+                self.note("flush", f"a profile can end with {shown} (last symbols of the grammar's sentences: {sorted(last)}), but an item {shown} does not make the post-processor write out the "
+                                   "buffered line on every path: when the stream ends the items of the last line(s) are still in the buffer and are never emitted")
+
+
+class _Cover:
+    """Reads a sequence of yielded parts as lexemes: an unchanged item is itself, constant text is whitespace and
+    single-character delimiters.  Keeps the position `cursor` in W up to which the items have been yielded (in order, each
+    once) and what separates the last lexeme from the next one."""
+
+    def __init__(self, flow, st, cursor):
+        self.flow = flow
+        self.lex = st.lex
+        self.st = st
+        self.cursor = cursor
+        self.problems = []
+        self.ntok = 0
+        # separation since the last lexeme
+        self.have_prev = False
+        self.prev_delim = False
+        self.next_delim = False
+        self.ws = False
+        self.nb = 0
+        self.broken = False
+        self.cur_blank = True
+        self.first = None  # (separated from whatever came before, is a delimiter) of the first lexeme
+        self.clipped = None
+
+    def hint(self):
+        return f" (the loop / slice `{self.clipped}` does not range over the whole buffer)" if self.clipped else ""
+
+    def problem(self, kind, text):
+        if (kind, text) not in self.problems:
+            self.problems.append((kind, text))
+
+    def snapshot(self):
+        return (self.have_prev, self.prev_delim, self.next_delim, self.ws, self.nb, self.broken, self.cur_blank)
+
+    def restore(self, snap):
+        self.have_prev, self.prev_delim, self.next_delim, self.ws, self.nb, self.broken, self.cur_blank = snap
+
+    @staticmethod
+    def worst(snaps):
+        """Join of separation states: a fact holds after the join only if it holds in every state."""
+        return (any(s[0] for s in snaps), all(s[1] for s in snaps if s[0]) if any(s[0] for s in snaps) else False, False, all(s[3] for s in snaps),
+                1 if all(s[4] == 1 for s in snaps) else 2, any(s[5] for s in snaps), all(s[6] for s in snaps))
+
+    # -- facts
+    def is_delim(self, idx, lex=None):
+        lx = self.flow.lx
+        s = (lex if lex is not None else self.lex).get(idx)
+        return bool(lx.delims_ok and s is not None and s and s <= lx.delims)
+
+    # -- events
+    def item_end(self):
+        if self.cur_blank and self.have_prev:
+            self.broken = True  # an empty (or possibly empty) item: lark's space insertion looks at the previous ITEM
+        self.nb += 1
+        self.cur_blank = True
+
+    def space(self, definite):
+        if definite:
+            self.ws = True
+            self.cur_blank = False
+
+    def lexeme(self, cur_delim, what):
+        separated = self.ws or (self.nb == 1 and not self.broken and self.flow.insert_spaces and self.flow.lx.adj_ok)
+        if self.first is None:
+            self.first = (self.ws, cur_delim)
+        if self.have_prev and not (separated or self.prev_delim or cur_delim or self.next_delim):
+            how = "in the same yielded string" if self.nb == 0 else "with an empty string yielded in between" if self.broken else "with no whitespace yielded in between"
+            self.problem("taint", f"emits {what} glued to the previous word ({how}): two words fuse into one token" + ("" if self.flow.lx.delims_ok else " [delimiter lemma LX not established]"))
+        self.have_prev, self.prev_delim, self.next_delim = True, cur_delim, False
+        self.ws, self.nb, self.broken, self.cur_blank = False, 0, False, False
+
+    def advance_to(self, idx, what):
+        """The next item yielded is W[idx]: it must be the one at the cursor."""
+        d = idx - self.cursor
+        if d == _k(0):
+            return True
+        sg = _sign_for_long_lines(d) if not (set(d.atoms()) - {"n"}) else ("pos" if _ge0(self.st, d - _k(1)) else "neg" if _ge0(self.st, -d - _k(1)) else None)
+        if sg in ("pos", "pos-long"):
+            self.problem("flush", f"{what} is yielded while the buffered items from position {self.cursor!r} on have not been: they are never emitted{self.hint()}")
+            return True
+        if sg in ("neg", "neg-long"):
+            self.problem("taint", f"{what} is yielded again / out of stream order (items up to position {self.cursor!r} have already been yielded)")
+            return False
+        self.problem("unk", f"the position of {what} cannot be compared with the items already yielded")
+        return False
+
+    def text(self, t):
+        for ch in t:
+            if ch.isspace():
+                self.space(True)
+            elif ch in _DELIM_CHARS:
+                s = self.lex.get(self.cursor)
+                inside = _ge0(self.st, _N - _k(1) - self.cursor)
+                if inside and s is not None and s == frozenset({ch}):
+                    self.lexeme(True, f"the constant `{ch}`")  # the item at this place is known to be this very delimiter
+                    self.cursor = self.cursor + _k(1)
+                    self.ntok += 1
+                elif inside and s is not None and ch in s and s != self.flow.lx.all:
+                    others = sorted(v for v in s if v != ch and not v.startswith("<"))
+                    if others:  # every plain lexeme left in the set passes all tests of the path: the item can be that one
+                        self.problem("taint", f"yields a constant `{ch}` in the place of the stream item, which on this path can also be `{others[0]}`")
+                    else:
+                        self.problem("unk", f"a constant `{ch}` is yielded where the item may or may not be `{ch}`")
+                else:
+                    self.problem("taint", f"yields a constant `{ch}` that is not the stream item at this place (extra, repeated or reordered delimiter)")
+            else:
+                self.problem("taint", f"yields the text {t!r}, which is neither a stream item nor whitespace")
+                return
+
+    def string(self, v: _Str):
+        for p in v.parts:
+            if p[0] == "txt":
+                self.text(p[1])
+            elif p[0] == "ws":
+                self.space(False)
+            elif p[0] == "tok":
+                if self.advance_to(p[1], f"item W[{p[1]!r}]"):
+                    self.cursor = p[1] + _k(1)
+                self.ntok += 1
+                self.lexeme(self.is_delim(p[1]), f"item W[{p[1]!r}]")
+            elif p[0] == "alt":
+                self.problem("taint", f"yields item text that is not the stream item itself: {p[1]}")
+            elif p[0] == "join":
+                self.join(p[1], p[2], p[3])
+
+    def sep_effect(self, sep):
+        if not isinstance(sep, _Str) or sep.symbolic():
+            return "bad", "item text"
+        if sep.blank():
+            return ("ws", None) if any(q[0] == "txt" for q in sep.parts) else ("none", None)
+        return "bad", sep.text
+
+    def run_of_items(self, lo, hi, note, between, what):
+        """Items W[lo:hi] in order; `between` is what separates two of them ("item": a boundary between yields, "ws",
+        "none", ("bad", text))."""
+        cnt = hi - lo
+        if note:
+            self.clipped = what
+        if cnt == _k(0):
+            return
+        if not _ge0(self.st, cnt):
+            self.problem("unk", f"{what}: cannot show the bounds are ordered")
+            return
+        if self.advance_to(lo, f"the run {what}"):
+            pass
+        self.ntok += 1
+        self.lexeme(self.is_delim(lo) and cnt == _k(1), f"the first item of {what}")
+        single = _ge0(self.st, _k(1) - cnt)
+        if not single:
+            if between == "none" or (between == "item" and not (self.flow.insert_spaces and self.flow.lx.adj_ok)):
+                self.problem("taint", f"{what}: consecutive buffered items are emitted with nothing between them: two words fuse into one token")
+            elif isinstance(between, tuple):
+                self.problem("taint", f"{what}: the buffered items are joined with {between[1]!r}, which is neither whitespace nor a stream item")
+        self.cursor = hi
+        self.have_prev, self.prev_delim, self.next_delim = True, self.is_delim(hi - _k(1)), False
+        self.ws, self.nb, self.broken, self.cur_blank = False, 0, False, False
+
+    def join(self, parts, sep, rev):
+        kind, why = self.sep_effect(sep)
+        between = "ws" if kind == "ws" else "none" if kind == "none" else ("bad", why)
+        if rev:
+            n = _length(list(parts))
+            if n is None or not _ge0(self.st, _k(1) - n):
+                self.problem("taint", "the buffered items are joined in reverse order")
+                return
+        for i, p in enumerate(parts):
+            if i:
+                if between == "ws":
+                    self.space(True)
+                elif isinstance(between, tuple):
+                    self.problem("taint", f"the buffered items are joined with {between[1]!r}, which is neither whitespace nor a stream item")
+            if p[0] == "seg":
+                self.run_of_items(p[1], p[2], p[3], between, "the joined buffer" + (f" slice ({p[3]})" if p[3] else ""))
+            else:
+                self.string(p[1])
+
+    def run(self, parts):
+        for p in parts:
+            if p[0] == "one":
+                v = p[1]
+                if isinstance(v, _Str):
+                    self.string(v)
+                    self.item_end()
+                elif isinstance(v, (_Unk, _Opq)):
+                    self.problem("unk", f"a yielded value is not modelled: {getattr(v, 'why', None) or getattr(v, 'label', '')}")
+                else:
+                    self.problem("taint", f"yields a {type(v).__name__.strip('_').lower() if v is not None else 'None'} value, not a stream item or whitespace")
+            elif p[0] == "seg":
+                self.run_of_items(p[1], p[2], p[3], "item", "`yield from` the buffer" + (f" slice ({p[3]})" if p[3] else ""))
+                self.item_end()
+            elif p[0] == "rep":
+                self.rep(p[1], p[2])
+
+    def rep(self, rep: _Rep, uid):
+        alts = [(a, a.deltas.get(uid, ())) for a in rep.alts]
+        if not any(parts for _a, parts in alts):
+            return
+        atom = SymPoly.atom(rep.atom)
+        infos = []
+        for a, parts in alts:
+            toks = []
+            for p in parts:
+                if p[0] != "one":
+                    self.problem("unk", f"the loop over `{rep.what}` appends something that is not a single value per step")
+                    return
+                if isinstance(p[1], _Str):
+                    for q in p[1].parts:
+                        if q[0] == "tok":
+                            toks.append(q[1])
+                        elif q[0] == "join":
+                            self.problem("unk", f"the loop over `{rep.what}` joins items inside the loop")
+                            return
+            infos.append(toks)
+        if not any(infos):
+            # a loop that yields only whitespace / constants: one possibly empty run of items
+            before = self.snapshot()
+            snaps = [before]
+            for a, parts in alts:
+                self.restore(before)
+                self.run(parts)
+                snaps.append(self.snapshot())
+            self.restore(self.worst(snaps))
+            if self.have_prev and not self.ws:
+                self.broken = True
+            return
+        if "constant slice bound" in rep.what:
+            self.clipped = rep.what
+        base = None
+        for toks in infos:
+            if not toks:
+                self.problem("flush", f"on a path through the loop over `{rep.what}` the buffered item is not yielded: it is dropped")
+                continue
+            if len(toks) > 1:
+                if all(t == toks[0] for t in toks):
+                    self.problem("taint", f"the loop over `{rep.what}` yields a buffered item more than once")
+                else:
+                    self.problem("unk", f"the loop over `{rep.what}` yields several buffered items per step")
+                return
+            b = toks[0] - atom
+            sp = _lin(toks[0], rep.atom)
+            if sp is not None and sp[0] < 0 and not _ge0(self.st, _k(1) - rep.count):
+                self.problem("taint", f"the loop over `{rep.what}` yields the buffered items in reverse order")
+                return
+            if rep.atom in b.atoms() or (base is not None and b != base):
+                self.problem("unk", f"the loop over `{rep.what}` does not yield the buffered items one by one in order")
+                return
+            base = b
+        if base is None:
+            return
+        self.advance_to(base, f"the first item of the loop over `{rep.what}`")
+        outer_lex, outer_st = self.lex, self.st
+        inner = _State()
+        inner.loops = list(outer_st.loops) + [(rep.atom, rep.count)]
+        before = self.snapshot()
+        after = {}
+        problems0 = list(self.problems)
+        # (a) entering the loop, (b) one iteration after another; all with the position symbolic
+        entries = [(None, before)]
+        for rnd in range(2):  # two passes over the PATHS of the body (not over positions): pass 0 = entered from outside, pass 1 = entered after another path
+            for j, (a, parts) in enumerate(alts):
+                if not infos[j]:
+                    continue
+                for i, snap in entries:
+                    inner.ge0 = list(a.ge0)
+                    self.lex, self.st = a.lex, inner
+                    self.restore(snap)
+                    self.cursor = base + atom
+                    self.run(parts)
+                    if rnd == 0:
+                        after[j] = self.snapshot()
+            entries = []
+            for i, (a, parts) in enumerate(alts):
+                if i not in after:
+                    continue
+                inner.ge0 = list(a.ge0)
+                if _ge0(inner, atom + _k(1) - rep.count):
+                    continue  # this path is taken for the last position only: no iteration follows it
+                snap = list(after[i])
+                snap[2] = self.is_delim(base + atom + _k(1), a.lex)  # the branch tests of the path say the NEXT item is a delimiter
+                entries.append((i, tuple(snap)))
+        self.lex, self.st = outer_lex, outer_st
+        exits = [before] if not _ge0(outer_st, rep.count - _k(1)) else []
+        for i, (a, parts) in enumerate(alts):
+            if i not in after:
+                continue
+            inner.ge0 = list(a.ge0)
+            if _ge0(inner, rep.count - atom - _k(2)):
+                continue  # this path is never taken for the last position
+            snap = list(after[i])
+            snap[1] = snap[1] or self.is_delim(base + rep.count - _k(1))
+            exits.append(tuple(snap))
+        self.restore(self.worst(exits) if exits else before)
+        self.cursor = base + rep.count
+        self.ntok += 1
+
+    def line_end(self):
+        """A flushing path: the last lexeme of this line must not fuse with the first of the next one."""
+        if not self.have_prev or self.ws or self.prev_delim:
+            return
+        if self.first is not None and (self.first[0] or self.first[1]):
+            return
+        self.problem("unk", "cannot show that the last item of a line and the first item of the next line are kept apart")
+
+
+def _lexicon(ctx, g=None):
+    lx = getattr(ctx, "_c10_lexicon", None)
+    if lx is None:
+        lx = _Lexicon(g if g is not None else Grammar(ctx.repo))
+        ctx._c10_lexicon = lx
+    return lx
 
 
 # ---------------------------------------------------------------------------------------------- locating by role
@@ -1650,23 +2430,68 @@ def _parser_identity(ctx, f: Func, e):
     return None
 
 
-def _callable_of(ctx, f: Func, e):
-    """The package callable an expression of function f denotes -> _Closure, "none" (the constant None), or None."""
+
+
+def _callable_of(ctx, f: Func, e, flow=None):
+    """The package callable an expression of function f denotes -> _Fn, "none" (the constant None), or None.  Resolved
+    through single assignments, nested defs, module-level functions, methods of the class, lambdas, functools.partial."""
     e = _inl(f, e)
     if isinstance(e, ast.Constant) and e.value is None:
         return "none"
-    sym = _Sym(ctx)
+    flow = flow or _Flow(ctx, _lexicon(ctx), True)
     try:
-        v = sym.eval(e, _static_scope(f))
-    except (_Unsupported, _Abort, RecursionError):
+        v = flow.static_value(f, e)
+    except Exception:  # not resolvable by the static name lookup: the obligations are undecided
         return None
-    return v if isinstance(v, _Closure) else None
+    return v if isinstance(v, _Fn) else None
 
 
-def _static_scope(f: Func):
-    """A scope in which the names of function f resolve statically (nested defs, single assignments, self)."""
-    # evaluate as if inside a nested function of f: free-variable rules of `_Sym.lookup` then apply to f itself
-    return _Scope(Func(f.module, f.qualname + ".<expr>", f.node, f.cls, f))
+def _postproc_obligations(ctx, f: Func, call: ast.Call, g=None):
+    pp_arg = _lark_arg(call, 1, "postproc")
+    spaces = True
+    sp = _lark_arg(call, 2, "insert_spaces")
+    if sp is not None:
+        spv = _inl(f, sp)
+        if isinstance(spv, ast.Constant) and spv.value in (False, 0, None):
+            spaces = False
+    lx = _lexicon(ctx, g)
+    flow = _Flow(ctx, lx, spaces)
+    pp = _callable_of(ctx, f, pp_arg, flow) if pp_arg is not None else "none"
+    if pp == "none":
+        msg = "no post-processor is handed to Reconstructor.reconstruct: lark joins the item stream as it is"
+        ctx.ob("R3", "TAINT", f, "postproc yields", True, msg, call, nontrivial=False)
+        ctx.ob("R3", "TAINT", f, "flush on terminators", True, msg, call, nontrivial=False)
+        return
+    if pp is None:
+        why = f"the post-processor handed to Reconstructor.reconstruct (`{src(pp_arg)}`) cannot be resolved to a function of the package"
+        ctx.undecided("R3", "TAINT", f, "postproc yields", why, call)
+        ctx.undecided("R3", "TAINT", f, "flush on terminators", why, call)
+        return
+    where = pp.func if isinstance(pp.func, Func) and pp.func.node is pp.node else f
+    flow.analyse(pp)
+    name = getattr(pp.func, "qualname", "?") if pp.func is not None and pp.func.node is pp.node else src(pp_arg)[:60]
+    scope_txt = (f"one arbitrary iteration of the loop over the items, {flow.stats['iteration_paths']} path(s), {flow.stats['flush_paths']} of them write the line out; "
+                 f"{flow.stats['inner_loops']} inner loop(s) summarised with a symbolic position; line length n symbolic")
+    why = f"path-wise value flow of the post-processor `{name}` does not decide this: " + "; ".join(flow.unk[:3])
+    if flow.taint:
+        ctx.ob("R3", "TAINT", where, "postproc yields", False, "post-processor: " + flow.taint[0] + (f" (+{len(flow.taint) - 1} more)" if len(flow.taint) > 1 else ""), pp.node)
+    elif flow.unk:
+        ctx.undecided("R3", "TAINT", where, "postproc yields", why, pp.node)
+    else:
+        ctx.ob("R3", "TAINT", where, "postproc yields", True,
+               "inductive step, for every path of one iteration: the item drawn is appended to the line buffer unchanged; what is yielded is, whitespace aside, exactly the buffered items W[0:n] - each "
+               "once, in order, never through a transforming string operation, two words never fused (whitespace, or adjacent yields that lark separates, or a `{`/`}`/`;` on one side) - and outside "
+               f"the loop only whitespace is yielded ({scope_txt})", pp.node)
+    if flow.flush:
+        ctx.ob("R3", "TAINT", where, "flush on terminators", False, flow.flush[0] + (f" (+{len(flow.flush) - 1} more)" if len(flow.flush) > 1 else ""), pp.node)
+    elif flow.unk:
+        ctx.undecided("R3", "TAINT", where, "flush on terminators", why, pp.node)
+    else:
+        last = sorted(lx.last_lexemes())
+        ctx.ob("R3", "TAINT", where, "flush on terminators", True,
+               ("on the paths whose output could be read: " if flow.taint else "") + f"every path of an iteration ends with yielded items ++ buffer == W: either nothing is yielded and the buffer is W, or the "
+               f"whole of W is yielded and the buffer is reset; the paths that keep the buffer are taken only for items other than {last}, the symbols a sentence of the grammar can end with, so the "
+               f"buffer is empty when the stream ends (assumption: the stream is a sentence of c2profile.lark) ({scope_txt})", pp.node)
 
 
 def _tree_stores(fn: Func):
@@ -1693,7 +2518,7 @@ def _by_role(ctx, name: str, has_role, keeps_role=None):
     return [g for _q, g in sorted(mod.funcs.items()) if g is not f and has_role(g)]
 
 
-def r3(ctx):
+def r3(ctx, g=None):
     mod = ctx.repo.module(MOD)
     renderers = _by_role(ctx, "C2Profile.as_text", lambda g: bool(_reconstruct_calls(ctx, g)))
     readers = _by_role(ctx, "C2Profile.from_text", _stores_parsed_tree, lambda g: bool(_tree_stores(g)))
@@ -1708,7 +2533,7 @@ def r3(ctx):
     for f in renderers:
         calls = _reconstruct_calls(ctx, f)
         for call, _mk in calls:
-            _postproc_obligations(ctx, f, call)
+            _postproc_obligations(ctx, f, call, g)
         # -------------------------------------------------------------- it returns that reconstruction of its own tree
         rets = [s for s in _own_nodes(f.node) if isinstance(s, ast.Return)]
         problems, wrapped = [], []
@@ -1764,71 +2589,6 @@ def r3(ctx):
                 problems.append(f"stores {src(s.value)}")
         ctx.ob("R3", "AGREE", ft, "profile.tree = parser.parse(source)", not problems, f"{ft.qualname} stores the parser's tree of its source argument unmodified" if not problems else f"{ft.qualname}: " + "; ".join(problems))
 
-
-def _postproc_obligations(ctx, f: Func, call: ast.Call):
-    pp_arg = _lark_arg(call, 1, "postproc")
-    spaces = True
-    sp = _lark_arg(call, 2, "insert_spaces")
-    if sp is not None:
-        spv = _inl(f, sp)
-        if isinstance(spv, ast.Constant) and spv.value in (False, 0, None):
-            spaces = False
-    if pp_arg is None or _callable_of(ctx, f, pp_arg) == "none":
-        msg = "no post-processor is handed to Reconstructor.reconstruct: lark joins the item stream as it is"
-        ctx.ob("R3", "TAINT", f, "postproc yields", True, msg, call, nontrivial=False)
-        ctx.ob("R3", "TAINT", f, "flush on terminators", True, msg, call, nontrivial=False)
-        return
-    pp = _callable_of(ctx, f, pp_arg)
-    if pp is None:
-        why = f"the post-processor handed to Reconstructor.reconstruct (`{src(pp_arg)}`) cannot be resolved to a function of the package"
-        ctx.undecided("R3", "TAINT", f, "postproc yields", why, call)
-        ctx.undecided("R3", "TAINT", f, "flush on terminators", why, call)
-        return
-    where = pp.func if isinstance(pp.func, Func) and pp.func.node is pp.node else f
-    families = [("sentence", [tuple(s) for s in _sentences(10)] + [tuple(d.split()) for d in _DEEP]), ("item stream", _short_streams(4))]
-    taint_bad = flush_bad = None
-    n_runs = n_abort = n_trunc = 0
-    budget = [_ALTERNATIVES_BUDGET]
-    try:
-        for fam, shapes in families:
-            for shape in shapes:
-                results, truncated = _run_postproc(ctx, pp, shape, spaces, budget)
-                n_trunc += 1 if truncated else 0
-                for taint, missing, aborted, forked in results:
-                    n_runs += 1
-                    if aborted is not None:
-                        n_abort += 1
-                        if fam == "sentence" and forked:
-                            # the run assumed answers about the text of words; they may be contradictory
-                            raise _Unsupported(f"the post-processor may raise on the sentence `{_show(shape)}`: {aborted}")
-                        if fam == "sentence" and taint_bad is None:
-                            taint_bad = f"on the sentence `{_show(shape)}` the post-processor raises ({aborted}) instead of yielding the items"
-                        continue
-                    if taint and taint_bad is None:
-                        taint_bad = f"on the {fam} `{_show(shape)}` the post-processor {taint}"
-                    if not taint and missing and flush_bad is None:
-                        names = ", ".join(f"`{_mk_stream(shape)[i]!r}` (position {i})" for i in missing)
-                        flush_bad = f"on the {fam} `{_show(shape)}` the post-processor never emits {names}: the item is dropped or still buffered when the stream ends"
-            if taint_bad and flush_bad:
-                break
-    except (_Unsupported, RecursionError) as ex:
-        why = f"symbolic execution of the post-processor `{getattr(pp.func, 'qualname', '?')}` stopped: {ex}"
-        # what was established before stopping is a located, real defect: report it; the rest is not claimed
-        if taint_bad:
-            ctx.ob("R3", "TAINT", where, "postproc yields", False, taint_bad, pp.node)
-        else:
-            ctx.undecided("R3", "TAINT", where, "postproc yields", why, pp.node)
-        if flush_bad:
-            ctx.ob("R3", "TAINT", where, "flush on terminators", False, flush_bad, pp.node)
-        else:
-            ctx.undecided("R3", "TAINT", where, "flush on terminators", why, pp.node)
-        return
-    scope_txt = f"{n_runs} symbolic runs: every statement/block skeleton of the language up to 10 items, {len(_DEEP)} deeper nestings, every item stream up to 4 items ending in `;` or `}}`" + (f" ({n_abort} non-sentence streams on which the post-processor raises were skipped)" if n_abort else "") + (
-        f" (the post-processor branches on the text of words: the combinations of answers were explored up to {_MAX_ALTERNATIVES} per stream and {_ALTERNATIVES_BUDGET} overall, smallest streams first; {n_trunc} streams have more)" if n_trunc else "")
-    ctx.ob("R3", "TAINT", where, "postproc yields", taint_bad is None,
-           taint_bad or f"whitespace aside, the post-processor yields exactly the stream items themselves, each once, in stream order, never glued together ({scope_txt})", pp.node)
-    ctx.ob("R3", "TAINT", where, "flush on terminators", flush_bad is None,
-           flush_bad or ("on the runs whose output could be audited: " if taint_bad else "") + f"when the stream ends with a statement terminator (`;` or `}}`) every item has been emitted: nothing is dropped or left in a buffer ({scope_txt})", pp.node)
 
 
 def r5(ctx, g: Grammar):
